@@ -342,6 +342,60 @@ Qed.
 Lemma ctype_neq_eqb t : ctype_eqb t TEnum = false -> t <> TEnum.
 Proof. intros H ->. discriminate. Qed.
 
+(* ------------------------------------------------------------------ the constant instruction *)
+
+(* a duplicate-free index of n positions below n covers all of them *)
+Lemma full_index J n : NoDup J -> Forall (fun p => p < n) J -> length J = n -> forall q, q < n -> In q J.
+Proof.
+  intros Hnd Hin Hl q Hq.
+  assert (Hincl : incl (seq 0 n) J).
+  { apply NoDup_length_incl; [exact Hnd|rewrite seq_length; lia|].
+    intros p Hp. apply in_seq. rewrite Forall_forall in Hin. specialize (Hin p Hp). lia. }
+  apply Hincl. apply in_seq. lia.
+Qed.
+
+Lemma map_const_repeat {A B} (v : B) (l : list A) : map (fun _ => v) l = repeat v (length l).
+Proof. induction l as [|a l IH]; simpl; [reflexivity|rewrite IH; reflexivity]. Qed.
+
+(* apply0 with a constant (Model/Ops.v): whichever of its two branches runs, the column holds the constant along the
+   index and - where there is anything outside the index - the zero value there *)
+Lemma const_instr_col k (h : frame) dst :
+  NoDup (ix h) -> Forall (fun p => p < phys_len h) (ix h) ->
+  let o := (if Nat.eqb (length (ix h)) (phys_len h) then do col <- const_col k (phys_len h); Ok (set_column h dst col)
+            else match const_type k with
+                 | None => Panic
+                 | Some t => do cells <- scatter (repeat (zero_cell t) (phys_len h)) (ix h) (repeat k (length (ix h)));
+                             do col <- col_of_cells t cells; Ok (set_column h dst col)
+                 end) in
+  match const_type k with
+  | None => o = Panic
+  | Some t => exists r, o = Ok (set_column h dst r) /\ col_type r = t /\ col_ok (phys_len h) r
+                /\ omap (cell_at r) (ix h) = Ok (repeat k (length (ix h)))
+                /\ (forall q, q < phys_len h -> ~ In q (ix h) -> cell_at r q = Ok (zero_cell t))
+  end.
+Proof.
+  intros Hnd Hin o. subst o. set (n := phys_len h) in *. set (J := ix h) in *.
+  destruct (const_type k) as [t|] eqn:Ek.
+  - assert (Hk : (forall s, k <> CEnum s) /\ t <> TEnum /\ cell_type_ok t k = true /\ const_ctype k = t).
+    { destruct k; inversion Ek; subst; repeat split; try discriminate; intros ? ?; discriminate. }
+    destruct Hk as [Hk1 [Hk2 [Hk3 Hk4]]].
+    destruct (Nat.eqb (length J) n) eqn:El.
+    + apply Nat.eqb_eq in El.
+      destruct (OpsProofs2.const_col_spec k n Hk1) as [r [E [T [Ln C]]]]. rewrite E. cbn [obind].
+      exists r. split; [reflexivity|]. split; [congruence|].
+      split; [split; [exact Ln|apply col_wf_nonenum; rewrite T, Hk4; exact Hk2]|]. split.
+      * rewrite <- map_const_repeat. apply omap_const_ok. intros p Hp. apply C. rewrite Forall_forall in Hin. apply Hin. exact Hp.
+      * intros q Hq Hnot. exfalso. apply Hnot. apply (full_index J n Hnd Hin El q Hq).
+    + destruct (scatter_col_gen t (zero_cell t) n J (repeat k (length J)) Hk2 (zero_cell_ok t Hk2) Hnd Hin
+                  ltac:(rewrite repeat_length; lia) (repeat_Forall _ k (length J) Hk3))
+        as [arr [r [Ha [Hc [Ht [Hl [Hv Hz]]]]]]].
+      rewrite Ha. cbn [obind]. rewrite Hc. cbn [obind].
+      exists r. split; [reflexivity|]. split; [exact Ht|].
+      split; [split; [exact Hl|apply col_wf_nonenum; rewrite Ht; exact Hk2]|]. split; [|exact Hz].
+      rewrite Hv. rewrite firstn_all2 by (rewrite repeat_length; lia). reflexivity.
+  - destruct k; try discriminate Ek. destruct (Nat.eqb (length J) n); reflexivity.
+Qed.
+
 (* ------------------------------------------------------------------ ecolumn.toUpper, cell by cell *)
 
 Lemma find_value_nth : forall vs s i r, find_value vs s i = Some r ->
@@ -440,6 +494,17 @@ Proof.
     + unfold idx in Hx |- *. destruct (nth_error values (N.to_nat r)) as [s|] eqn:Es; cbn [of_option obind] in Hx; [|discriminate].
       inversion Hx; subst x. destruct (Hval r s Es) as [u [Hu1 Hu2]]. rewrite Hu2. cbn [of_option obind].
       exists (CEnum (Some u)). split; [|reflexivity]. cbn [upcell]. rewrite Hu1. reflexivity.
+Qed.
+
+(* what the proofs need of a recorded function: results of the declared type (a constant needs nothing: an enum
+   constant makes both runs panic) *)
+Definition afn_typed (fn : afn) : bool := match fn with F0Const _ => true | other => afn_wf other end.
+Lemma afn_wf_typed fn : afn_wf fn = true -> afn_typed fn = true.
+Proof. destruct fn; auto. Qed.
+Lemma afn_wf_typed_all is :
+  forallb (fun i => afn_wf (ifn i)) is = true -> forallb (fun i => afn_typed (ifn i)) is = true.
+Proof.
+  intro H. apply forallb_forall. intros i Hi. rewrite forallb_forall in H. apply afn_wf_typed. apply H. exact Hi.
 Qed.
 
 Section Instr.
@@ -550,7 +615,7 @@ Section Instr.
 
   Lemma col_apply1_sim f g c1 c2 fn :
     Rel L f g -> act L (ix f) (ix g) -> col_sim L c1 c2 -> col_ok (phys_len f) c1 -> col_ok (phys_len g) c2 ->
-    afn_wf fn = true -> upper_prem c1 fn -> upper_prem c2 fn ->
+    afn_typed fn = true -> upper_prem c1 fn -> upper_prem c2 fn ->
     col_out f g (col_apply1 ut c1 fn (ix f)) (col_apply1 ut c2 fn (ix g)).
   Proof.
     intros HR Ha [Ht Hc] Ho1 Ho2 Hfn Hp1 Hp2. pose proof Ha as [Hlen [Hincl _]].
@@ -583,7 +648,7 @@ Section Instr.
 
   Lemma col_apply2_sim f g c1 c2 e1 e2 fn :
     Rel L f g -> act L (ix f) (ix g) -> col_sim L c1 c2 -> col_sim L e1 e2 ->
-    col_ok (phys_len f) c1 -> col_ok (phys_len g) c2 -> afn_wf fn = true ->
+    col_ok (phys_len f) c1 -> col_ok (phys_len g) c2 -> afn_typed fn = true ->
     col_out f g (col_apply2 c1 e1 fn (ix f)) (col_apply2 c2 e2 fn (ix g)).
   Proof.
     intros HR Ha [Ht Hc] [Hte He] Ho1 Ho2 Hfn. pose proof Ha as [Hlen [Hincl _]].
@@ -632,7 +697,7 @@ Section Instr.
 
   (* one instruction of Apply, on two frames related by L, over paired row indexes *)
   Theorem apply_instr_sim f g i :
-    Rel L f g -> act L (ix f) (ix g) -> afn_wf (ifn i) = true ->
+    Rel L f g -> act L (ix f) (ix g) -> afn_typed (ifn i) = true ->
     enum_upper_okb ut f i = true -> enum_upper_okb ut g i = true ->
     sim_out L f g (apply_instr ut f i) (apply_instr ut g i).
   Proof.
@@ -655,15 +720,18 @@ Section Instr.
         destruct (do cells <- scatter _ (ix f) vals; col_of_cells ty cells) as [r1| |],
                  (do cells <- scatter _ (ix g) vals; col_of_cells ty cells) as [r2| |]; try contradiction; try exact I.
         apply (sim_out_set L f g (idst i) (Ok r1) (Ok r2) HR). destruct Hloop as [H1 [H2 [H3 _]]]. auto.
-      + destruct k as [z|b|b|s|s]; try exact I;
-          (match goal with |- sim_out _ _ _ (do col <- const_col ?k _; _) _ =>
-             destruct (OpsProofs2.const_col_spec k (phys_len f) ltac:(intros ? ?; discriminate)) as [r1 [E1 [T1 [L1 C1]]]];
-             destruct (OpsProofs2.const_col_spec k (phys_len g) ltac:(intros ? ?; discriminate)) as [r2 [E2 [T2 [L2 C2]]]];
-             rewrite E1, E2; cbn [obind];
-             apply (sim_out_set L f g (idst i) (Ok r1) (Ok r2) HR);
-             (split; [split; [congruence|]|split; split; try assumption; apply col_wf_nonenum; rewrite ?T1, ?T2; discriminate]);
-             intros p q Hpq; destruct (r_rng _ _ _ HR p q Hpq) as [Hp Hq]; exists k; split; [apply C1; exact Hp|apply C2; exact Hq]
-           end).
+      + (* a constant: a constant column when the index covers the columns, else written through the index *)
+        pose proof (act_in_range L (ix f) (ix g) _ _ Ha (r_rng _ _ _ HR)) as [I1 I2].
+        pose proof Ha as [Hlen [_ [Hnd1 Hnd2]]].
+        pose proof (const_instr_col k f (idst i) Hnd1 I1) as C1.
+        pose proof (const_instr_col k g (idst i) Hnd2 I2) as C2.
+        destruct (const_type k) as [t|].
+        * destruct C1 as [r1 [E1 [T1 [K1 [V1 Z1]]]]]. destruct C2 as [r2 [E2 [T2 [K2 [V2 Z2]]]]].
+          rewrite E1, E2. apply (sim_out_set L f g (idst i) (Ok r1) (Ok r2) HR).
+          split; [split; [congruence|]|split; assumption].
+          rewrite <- Hlen in V2.
+          apply (built_sim L (ix f) (ix g) (phys_len f) (phys_len g) H121 Ha (r_rng _ _ _ HR) r1 r2 _ (zero_cell t) V1 V2 Z1 Z2).
+        * rewrite C1, C2. exact I.
       + apply copy_sim. exact HR.
     - (* apply1 *)
       unfold apply1. rewrite <- Herr. destruct (ferr f); [apply sim_out_self; exact HR|].
@@ -782,7 +850,7 @@ Proof.
 Qed.
 
 Theorem apply_sim ut L : one2one L -> forall is f g,
-  Rel L f g -> act L (ix f) (ix g) -> forallb (fun i => afn_wf (ifn i)) is = true ->
+  Rel L f g -> act L (ix f) (ix g) -> forallb (fun i => afn_typed (ifn i)) is = true ->
   upper_prog_okb ut f is = true -> upper_prog_okb ut g is = true ->
   sim_out L f g (apply ut f is) (apply ut g is).
 Proof.
@@ -834,7 +902,7 @@ Theorem apply_congr ut f g t is :
 Proof.
   intros Hf Hg He Hw1 Hw2 Hn1 Hn2 Hfn Hu1 Hu2.
   destruct (rel_of_abs f g t Hf Hg He Hw1 Hw2) as [HR Hl].
-  pose proof (apply_sim ut _ (one2one_combine _ _ Hn1 Hn2) is f g HR (act_full f g Hl Hn1 Hn2) Hfn Hu1 Hu2) as H.
+  pose proof (apply_sim ut _ (one2one_combine _ _ Hn1 Hn2) is f g HR (act_full f g Hl Hn1 Hn2) (afn_wf_typed_all is Hfn) Hu1 Hu2) as H.
   unfold sim_out, same_result in *.
   destruct (apply ut f is) as [f'| |], (apply ut g is) as [g'| |]; try contradiction; [|exact I].
   destruct H as [HR' [If Ig]]. split; [apply HR'|].
@@ -888,7 +956,7 @@ Proof.
   destruct Hrest as [_ [_ Hact]].
   destruct (act_in_range L _ _ _ _ Hact (r_rng _ _ _ HR)) as [I1 I2].
   assert (HR0 : Rel L (with_ix f (ix ff)) (with_ix g (ix gg))) by (apply Rel_with_ix; assumption).
-  pose proof (apply_sim ut L (one2one_combine _ _ Hn1 Hn2) is _ _ HR0 Hact Hfn (Hu1 ff eq_refl) (Hu2 gg eq_refl)) as H.
+  pose proof (apply_sim ut L (one2one_combine _ _ Hn1 Hn2) is _ _ HR0 Hact (afn_wf_typed_all is Hfn) (Hu1 ff eq_refl) (Hu2 gg eq_refl)) as H.
   pose proof (apply_post ut is (with_ix f (ix ff)) (r_wf1 _ _ _ HR0)) as P1.
   pose proof (apply_post ut is (with_ix g (ix gg)) (r_wf2 _ _ _ HR0)) as P2.
   unfold sim_out, same_visible in *.
@@ -1381,17 +1449,1128 @@ Proof.
     inversion H; rewrite (Hfaith s u E); reflexivity.
 Qed.
 
-(* ------------------------------------------------------------------ the summary statement *)
+(* ------------------------------------------------------------------ the statement kept as C06_builtin_full_statement
+   (Properties/C06.v), at the level of apply_instr.  upper_cell2 is, word for word, upper_cell of Properties/C06.v.
+   One premise is ADDED: the source name is not empty - with SrcCol1 = "" the instruction is read as a
+   zero-argument one (apply0), where a function name is an error, so the statement without it is false for a
+   frame that has a column named "". *)
+Definition upper_cell2 (ut : upper_table) (x : cell) : outcome cell :=
+  match x with
+  | CStr (Some s) => do u <- upper_of ut s; Ok (CStr (Some u))
+  | CEnum (Some s) => do u <- upper_of ut s; Ok (CEnum (Some u))
+  | other => Ok other
+  end.
+
+Lemma upcell_upper_cell2 ut c index cells :
+  (col_type c = TString \/ col_type c = TEnum) -> omap (cell_at c) index = Ok cells ->
+  omap (upcell ut) cells = omap (upper_cell2 ut) cells.
+Proof.
+  intros Hty Hcells.
+  rewrite <- (omap_compose (cell_at c) (upcell ut) index cells Hcells).
+  rewrite <- (omap_compose (cell_at c) (upper_cell2 ut) index cells Hcells).
+  apply omap_ext_local. intros p _.
+  destruct c as [d|d|d|d|d vs st]; try (destruct Hty; discriminate); cbn [cell_at].
+  - destruct (idx d p) as [[s|]| |]; reflexivity.
+  - destruct (idx d p) as [r| |]; cbn [obind]; try reflexivity. destruct (enum_string vs r) as [[s|]| |]; reflexivity.
+Qed.
+
+Theorem apply_instr_builtin_toupper ut f t dst src ty cells out :
+  ferr f = false -> fr_ok f -> abs f = Ok t -> check_name dst = true -> empty_name src = false ->
+  tcolumn t src = Some (ty, cells) -> (ty = TString \/ ty = TEnum) ->
+  omap (upper_cell2 ut) cells = Ok out ->
+  (forall c s, lookup_col f src = Some c -> In s (match c with ECol _ vs _ => vs | _ => [] end) -> upper_of ut s <> Panic) ->
+  exists g, apply_instr ut f (mkInstr (FBuiltin name_ToUpper) dst src []) = Ok g /\ ferr g = false
+            /\ ix g = ix f /\ wf_frame g = true /\ abs g = Ok (tset_col t dst ty out).
+Proof.
+  intros Hf [Hwf Hnd] Ht Hn Hsrc Hcol Hty Hout Henum.
+  destruct (lookup f src) as [[k c]|] eqn:El; [|rewrite (abs_tcolumn_none f t src Ht El) in Hcol; discriminate].
+  destruct (abs_tcolumn_some f t src k c Ht El) as [cells' [Hc' Hcells]].
+  pose proof Hcol as Hcol0. rewrite Hc' in Hcol0. inversion Hcol0; subst ty cells'. clear Hcol0.
+  pose proof (lookup_col_of f src k c El) as Hlc.
+  assert (Hup : omap (upcell ut) cells = Ok out) by (rewrite (upcell_upper_cell2 ut c (ix f) cells Hty Hcells); exact Hout).
+  assert (Htab : forall c0, lookup_col f src = Some c0 -> fn1_tables_okb ut c0 (FBuiltin name_ToUpper) (ix f) = true).
+  { intros c0 Hc0. rewrite Hlc in Hc0. inversion Hc0; subst c0. unfold fn1_tables_okb. rewrite bytes_eqb_refl.
+    destruct c as [d|d|d|d|d vs st]; try reflexivity.
+    - unfold upper_s_okb. apply forallb_forall. intros p Hp.
+      apply In_nth_error in Hp as [j Hj]. destruct (omap_nth _ _ _ _ _ Hcells Hj) as [x [Hx Hxj]].
+      destruct (omap_nth _ _ _ _ _ Hup Hxj) as [y [Hy _]].
+      cbn [cell_at] in Hx. unfold idx in Hx. destruct (nth_error d p) as [[b|]|]; cbn [of_option obind] in Hx; try reflexivity.
+      inversion Hx; subst x. cbn [upcell] in Hy. unfold upper_of in Hy. destruct (assocb b ut); [reflexivity|discriminate].
+    - unfold upper_e_okb. apply forallb_forall. intros v Hv. specialize (Henum _ v Hlc Hv).
+      unfold upper_of in Henum. destruct (assocb v ut); [reflexivity|congruence]. }
+  pose proof (apply1_builtin_toupper_spec ut f t dst src (col_type c) cells Ht Hf Hwf Hnd Hn Hcol Htab) as H.
+  assert (Hgoal : exists vals g, omap (upcell ut) cells = Ok vals /\ apply1 ut f (FBuiltin name_ToUpper) dst src = Ok g
+                   /\ ferr g = false /\ ix g = ix f /\ wf_frame g = true /\ abs g = Ok (tset_col t dst (col_type c) vals)).
+  { destruct Hty as [E|E]; rewrite E in H |- *; exact H. }
+  destruct Hgoal as [vals [g [Hv [Hg [H1 [H2 [H3 H4]]]]]]].
+  rewrite Hup in Hv. inversion Hv; subst vals.
+  exists g. unfold apply_instr. cbn [isrc1 isrc2 ifn idst]. rewrite Hsrc. cbn [empty_name length Nat.eqb].
+  repeat split; assumption.
+Qed.
+
+(* the added premise cannot be dropped *)
+Example builtin_toupper_empty_source :
+  let f := mkFrame [([], SCol [Some [97%N]])] [0] false in
+  (do t <- abs f; Ok (tcolumn t [])) = Ok (Some (TString, [CStr (Some [97%N])]))
+  /\ apply_instr [([97%N], [65%N])] f (mkInstr (FBuiltin name_ToUpper) [66%N] [] []) = Ok (with_err f).
+Proof. split; vm_compute; reflexivity. Qed.
+
+(* ------------------------------------------------------------------ QFrame.Eval, directly: every tree, no premise on names
+   The corollary eval_congr above inherits the premises of the C07 theorem (pairwise different column names,
+   hygienic references, the 10000 limit).  None of them is needed for congruence: temporaries are named after the
+   column NAMES only, which the two frames share, so both runs create, find, capture and drop the same names. *)
+
+Record FRel (f g : frame) : Prop := mkFRel {
+  fr_err : ferr f = ferr g;
+  fr_cols : cols_sim (combine (ix f) (ix g)) (cols f) (cols g);
+  fr_wf1 : WF f;
+  fr_wf2 : WF g;
+  fr_len : length (ix f) = length (ix g);
+  fr_nd1 : NoDup (ix f);
+  fr_nd2 : NoDup (ix g)
+}.
+
+Lemma FRel_Rel f g : FRel f g -> Rel (combine (ix f) (ix g)) f g.
+Proof.
+  intros [H1 H2 H3 H4 H5 H6 H7]. split; try assumption.
+  intros p q Hpq. apply In_combine_nth in Hpq as [k [K1 K2]].
+  destruct H3 as [_ I1]. destruct H4 as [_ I2]. rewrite Forall_forall in I1, I2.
+  split; [apply I1; apply (nth_error_In _ _ K1)|apply I2; apply (nth_error_In _ _ K2)].
+Qed.
+
+Lemma Rel_FRel f g f' g' :
+  FRel f g -> Rel (combine (ix f) (ix g)) f' g' -> ix f' = ix f -> ix g' = ix g -> FRel f' g'.
+Proof.
+  intros [_ _ _ _ H5 H6 H7] [R1 R2 R3 R4 _] E1 E2. split; rewrite ?E1, ?E2; assumption.
+Qed.
+
+Lemma FRel_of_abs f g t :
+  abs f = Ok t -> abs g = Ok t -> ferr f = ferr g -> wf_frame f = true -> wf_frame g = true ->
+  NoDup (ix f) -> NoDup (ix g) -> FRel f g.
+Proof.
+  intros Hf Hg He Hw1 Hw2 Hn1 Hn2. destruct (rel_of_abs f g t Hf Hg He Hw1 Hw2) as [[R1 R2 R3 R4 _] Hl].
+  split; assumption.
+Qed.
+
+Lemma FRel_abs f g : FRel f g -> abs f = abs g.
+Proof. intro H. apply (abs_of_rel _ f g (FRel_Rel f g H)); [apply H|apply incl_refl]. Qed.
+
+Definition fsim (o1 o2 : outcome frame) : Prop :=
+  match o1, o2 with Ok a, Ok b => FRel a b | Panic, Panic => True | _, _ => False end.
+
+Lemma fsim_same_result o1 o2 : fsim o1 o2 -> same_result o1 o2.
+Proof.
+  unfold fsim, same_result. destruct o1 as [a| |], o2 as [b| |]; try tauto. intro H. split; [apply H|apply FRel_abs; exact H].
+Qed.
+
+Lemma FRel_apply ut f g is :
+  FRel f g -> forallb (fun i => afn_typed (ifn i)) is = true ->
+  upper_prog_okb ut f is = true -> upper_prog_okb ut g is = true ->
+  fsim (apply ut f is) (apply ut g is).
+Proof.
+  intros HF Hfn Hu1 Hu2.
+  pose proof (apply_sim ut _ (one2one_combine _ _ (fr_nd1 _ _ HF) (fr_nd2 _ _ HF)) is f g (FRel_Rel f g HF)
+                (act_full f g (fr_len _ _ HF) (fr_nd1 _ _ HF) (fr_nd2 _ _ HF)) Hfn Hu1 Hu2) as H.
+  unfold sim_out, fsim in *. destruct (apply ut f is) as [a| |], (apply ut g is) as [b| |]; try contradiction; [|exact I].
+  destruct H as [HR [E1 E2]]. apply (Rel_FRel f g a b HF HR E1 E2).
+Qed.
+
+Lemma FRel_with_err f g : FRel f g -> FRel (with_err f) (with_err g).
+Proof.
+  intros [H1 H2 H3 H4 H5 H6 H7]. split; try assumption; try reflexivity; apply WF_with_err; assumption.
+Qed.
+
+Lemma contains_sim L f g m : cols_sim L (cols f) (cols g) -> contains f m = contains g m.
+Proof.
+  intro H. pose proof (lookup_sim L f g m H) as Hs. unfold contains, opt_sim in *.
+  destruct (lookup f m) as [[k1 c1]|], (lookup g m) as [[k2 c2]|]; tauto.
+Qed.
+
+Lemma select_cols_sim L f g : cols_sim L (cols f) (cols g) -> forall names,
+  cols_sim L (flat_map (fun n => match lookup_col f n with Some c => [(n, c)] | None => [] end) names)
+             (flat_map (fun n => match lookup_col g n with Some c => [(n, c)] | None => [] end) names).
+Proof.
+  intros H names. induction names as [|n names IH]; [constructor|]. cbn [flat_map].
+  pose proof (lookup_col_sim L f g n H) as Hs.
+  destruct (lookup_col f n) as [c1|], (lookup_col g n) as [c2|]; try contradiction; [|exact IH].
+  cbn [app]. constructor; [split; [reflexivity|exact Hs]|exact IH].
+Qed.
+
+Lemma contains_all_sim L f g names :
+  cols_sim L (cols f) (cols g) -> forallb (contains f) names = forallb (contains g) names.
+Proof.
+  intro H. induction names as [|n names IH]; [reflexivity|]. cbn [forallb]. rewrite (contains_sim L f g n H), IH. reflexivity.
+Qed.
+
+Lemma FRel_select f g names : FRel f g -> FRel (select f names) (select g names).
+Proof.
+  intro HF. pose proof HF as [H1 H2 H3 H4 H5 H6 H7].
+  pose proof (select_WF f names H3) as W1. pose proof (select_WF g names H4) as W2.
+  unfold select in *. rewrite <- H1 in *. destruct (ferr f); [exact HF|].
+  pose proof (contains_all_sim _ f g names H2) as Hc.
+  rewrite <- Hc in *. destruct (negb (forallb (contains f) names)); [apply FRel_with_err; exact HF|].
+  destruct names as [|n0 names0].
+  - split; try assumption; try reflexivity; constructor.
+  - split; cbn [ix cols ferr]; try assumption; [reflexivity|]. apply select_cols_sim. exact H2.
+Qed.
+
+Lemma FRel_drop f g names : FRel f g -> FRel (drop f names) (drop g names).
+Proof.
+  intro HF. unfold drop. rewrite <- (fr_err _ _ HF). destruct (ferr f); [exact HF|].
+  destruct names as [|n0 names0]; [exact HF|].
+  unfold col_names. rewrite <- (cols_sim_names _ _ _ (fr_cols _ _ HF)). apply FRel_select. exact HF.
+Qed.
+
+Lemma FRel_copy f g dst src : FRel f g -> FRel (copy f dst src) (copy g dst src).
+Proof.
+  intro HF. pose proof (copy_sim _ f g dst src (FRel_Rel f g HF)) as H. unfold sim_out in H.
+  destruct H as [HR [E1 E2]]. apply (Rel_FRel f g _ _ HF HR E1 E2).
+Qed.
+
+Section EvalSim.
+  Import QF.Model.Eval QF.Proofs.EvalFullTemp.
+  Variable ut : upper_table.
+  Variable cx : ctx.
+
+  (* the functions of the evaluation context: recorded tables with typed results, no built-in names *)
+  Definition ctx_fn_ok : bool := forallb (fun e => afn_typed (snd e) && no_builtin (snd e)) cx.
+  Hypothesis Hcx : ctx_fn_ok = true.
+
+  Lemma get_func_fn_ok t two op fn : get_func cx t two op = Some fn -> afn_typed fn = true /\ no_builtin fn = true.
+  Proof.
+    unfold get_func. intro H. destruct (find _ cx) as [e|] eqn:E; [|discriminate]. inversion H; subst.
+    apply find_some in E as [Hin _]. unfold ctx_fn_ok in Hcx. rewrite forallb_forall in Hcx.
+    apply andb_true_iff. apply Hcx. exact Hin.
+  Qed.
+
+  Lemma tgo_sim f g prefix : (forall m, contains f m = contains g m) -> forall k i, tgo f prefix k i = tgo g prefix k i.
+  Proof.
+    intros H. induction k as [|k IH]; intro i; [reflexivity|]. rewrite !tgo_S, H, IH. reflexivity.
+  Qed.
+
+  Lemma temp_sim f g prefix : FRel f g -> temp_col_name f prefix = temp_col_name g prefix.
+  Proof.
+    intro HF. rewrite !temp_col_name_tgo. apply tgo_sim. intro m. apply (contains_sim _ f g m (fr_cols _ _ HF)).
+  Qed.
+
+  Definition xsim (o1 o2 : outcome (frame * bytes)) : Prop :=
+    match o1, o2 with
+    | Ok (a, n1), Ok (b, n2) => n1 = n2 /\ FRel a b
+    | Panic, Panic => True
+    | _, _ => False
+    end.
+
+  Lemma one_instr_sim f g i :
+    FRel f g -> afn_typed (ifn i) = true -> no_builtin (ifn i) = true -> fsim (apply ut f [i]) (apply ut g [i]).
+  Proof.
+    intros HF H1 H2. apply FRel_apply; [exact HF|cbn [forallb]; rewrite H1; reflexivity| |];
+      apply no_builtin_upper_prog; cbn [forallb]; rewrite H2; reflexivity.
+  Qed.
+
+  Lemma exec_const_sim f g v : FRel f g -> xsim (exec_const ut f v) (exec_const ut g v).
+  Proof.
+    intro HF. unfold exec_const. rewrite <- (fr_err _ _ HF). destruct (ferr f); [split; [reflexivity|exact HF]|].
+    rewrite <- (temp_sim f g p_const HF).
+    destruct (EvalFull.temp_cases f p_const) as [[name ->]| ->]; cbn [obind]; [|exact I].
+    pose proof (one_instr_sim f g (mkInstr (F0Const v) name [] []) HF eq_refl eq_refl) as H. unfold fsim in H.
+    destruct (apply ut f _) as [a| |], (apply ut g _) as [b| |]; try contradiction; cbn [obind]; [|exact I].
+    split; [reflexivity|exact H].
+  Qed.
+
+  Lemma get_fn_sim two f g col op :
+    FRel f g -> snd (get_fn cx two f col op) = snd (get_fn cx two g col op)
+                /\ FRel (fst (get_fn cx two f col op)) (fst (get_fn cx two g col op))
+                /\ (forall fn, snd (get_fn cx two f col op) = Some fn -> afn_typed fn = true /\ no_builtin fn = true).
+  Proof.
+    intro HF. unfold get_fn. rewrite <- (fr_err _ _ HF).
+    destruct (ferr f); [split; [reflexivity|split; [exact HF|discriminate]]|].
+    pose proof (lookup_col_sim _ f g col (fr_cols _ _ HF)) as Hs.
+    destruct (lookup_col f col) as [c1|], (lookup_col g col) as [c2|]; try contradiction;
+      [|split; [reflexivity|split; [apply FRel_with_err; exact HF|discriminate]]].
+    destruct Hs as [Ht _]. rewrite <- (col_ftype_sim c1 c2 Ht).
+    destruct (get_func cx (col_ftype c1) two op) as [fn|] eqn:E; cbn [fst snd].
+    - split; [reflexivity|]. split; [exact HF|]. intros fn0 H0. inversion H0; subst. apply (get_func_fn_ok _ _ _ _ E).
+    - split; [reflexivity|]. split; [apply FRel_with_err; exact HF|discriminate].
+  Qed.
+
+  Lemma exec_fn_sim two prefix f g op col c1 c2 :
+    FRel f g ->
+    xsim (let '(f', fn) := get_fn cx two f col op in
+          if ferr f' then Ok (f', []) else match fn with None => Panic | Some h =>
+            do name <- temp_col_name f' prefix; do r <- apply ut f' [mkInstr h name c1 c2]; Ok (r, name) end)
+         (let '(g', fn) := get_fn cx two g col op in
+          if ferr g' then Ok (g', []) else match fn with None => Panic | Some h =>
+            do name <- temp_col_name g' prefix; do r <- apply ut g' [mkInstr h name c1 c2]; Ok (r, name) end).
+  Proof.
+    intro HF. destruct (get_fn_sim two f g col op HF) as [Hfn [HF' Hok]].
+    destruct (get_fn cx two f col op) as [f' fn1], (get_fn cx two g col op) as [g' fn2]. cbn [fst snd] in *. subst fn2.
+    rewrite <- (fr_err _ _ HF'). destruct (ferr f'); [split; [reflexivity|exact HF']|].
+    destruct fn1 as [h|]; [|exact I]. destruct (Hok h eq_refl) as [T1 T2].
+    rewrite <- (temp_sim f' g' prefix HF').
+    destruct (EvalFull.temp_cases f' prefix) as [[name ->]| ->]; cbn [obind]; [|exact I].
+    pose proof (one_instr_sim f' g' (mkInstr h name c1 c2) HF' T1 T2) as H. unfold fsim in H.
+    destruct (apply ut f' _) as [a| |], (apply ut g' _) as [b| |]; try contradiction; cbn [obind]; [|exact I].
+    split; [reflexivity|exact H].
+  Qed.
+
+  Lemma exec_unary_sim f g op col : FRel f g -> xsim (exec_unary ut cx f op col) (exec_unary ut cx g op col).
+  Proof. intro HF. exact (exec_fn_sim false p_unary f g op col col [] HF). Qed.
+
+  Lemma exec_colcol_sim f g op c1 c2 : FRel f g -> xsim (exec_colcol ut cx f op c1 c2) (exec_colcol ut cx g op c1 c2).
+  Proof. intro HF. exact (exec_fn_sim true p_colcol f g op c1 c1 c2 HF). Qed.
+
+  Lemma execute_sim e : forall f g, FRel f g -> xsim (execute ut cx e f) (execute ut cx e g).
+  Proof.
+    induction e as [m|v|op c|op c v cf|op c1 c2|op e1 IH1|op l IHl r IHr|]; intros f g HF; cbn [execute].
+    - split; [reflexivity|exact HF].
+    - apply exec_const_sim. exact HF.
+    - apply exec_unary_sim. exact HF.
+    - rewrite <- (fr_err _ _ HF). destruct (ferr f); [split; [reflexivity|exact HF]|].
+      pose proof (exec_const_sim f g v HF) as H1. unfold xsim in H1.
+      destruct (exec_const ut f v) as [[r1 n1]| |], (exec_const ut g v) as [[r2 n2]| |]; try contradiction; cbn [obind]; [|exact I].
+      destruct H1 as [<- HF1].
+      assert (H2 : forall a b, xsim (exec_colcol ut cx r1 op a b) (exec_colcol ut cx r2 op a b)) by (intros; apply exec_colcol_sim; exact HF1).
+      destruct cf.
+      + specialize (H2 n1 c). unfold xsim in H2.
+        destruct (exec_colcol ut cx r1 op n1 c) as [[r1' m1]| |], (exec_colcol ut cx r2 op n1 c) as [[r2' m2]| |];
+          try contradiction; cbn [obind]; [|exact I].
+        destruct H2 as [<- HF2]. split; [reflexivity|apply FRel_drop; exact HF2].
+      + specialize (H2 c n1). unfold xsim in H2.
+        destruct (exec_colcol ut cx r1 op c n1) as [[r1' m1]| |], (exec_colcol ut cx r2 op c n1) as [[r2' m2]| |];
+          try contradiction; cbn [obind]; [|exact I].
+        destruct H2 as [<- HF2]. split; [reflexivity|apply FRel_drop; exact HF2].
+    - apply exec_colcol_sim. exact HF.
+    - pose proof (IH1 f g HF) as H1. unfold xsim in H1.
+      destruct (execute ut cx e1 f) as [[r1 n1]| |], (execute ut cx e1 g) as [[r2 n2]| |]; try contradiction; cbn [obind]; [|exact I].
+      destruct H1 as [<- HF1].
+      pose proof (exec_unary_sim r1 r2 op n1 HF1) as H2. unfold xsim in H2.
+      destruct (exec_unary ut cx r1 op n1) as [[r1' m1]| |], (exec_unary ut cx r2 op n1) as [[r2' m2]| |];
+        try contradiction; cbn [obind]; [|exact I].
+      destruct H2 as [<- HF2]. split; [reflexivity|].
+      rewrite <- (contains_sim _ f g n1 (fr_cols _ _ HF)). destruct (contains f n1); [exact HF2|apply FRel_drop; exact HF2].
+    - pose proof (IHl f g HF) as H1. unfold xsim in H1.
+      destruct (execute ut cx l f) as [[fl n1]| |], (execute ut cx l g) as [[gl n2]| |]; try contradiction; cbn [obind]; [|exact I].
+      destruct H1 as [<- HF1].
+      pose proof (IHr fl gl HF1) as H2. unfold xsim in H2.
+      destruct (execute ut cx r fl) as [[fr m1]| |], (execute ut cx r gl) as [[gr m2]| |]; try contradiction; cbn [obind]; [|exact I].
+      destruct H2 as [<- HF2].
+      pose proof (exec_colcol_sim fr gr op n1 m1 HF2) as H3. unfold xsim in H3.
+      destruct (exec_colcol ut cx fr op n1 m1) as [[f' k1]| |], (exec_colcol ut cx gr op n1 m1) as [[g' k2]| |];
+        try contradiction; cbn [obind]; [|exact I].
+      destruct H3 as [<- HF3]. split; [reflexivity|]. unfold drop_unless_original.
+      assert (Hflt : filter (fun n => negb (contains f n)) [n1; m1] = filter (fun n => negb (contains g n)) [n1; m1]).
+      { cbn [filter]. rewrite !(contains_sim _ f g _ (fr_cols _ _ HF)). reflexivity. }
+      rewrite Hflt. apply FRel_drop. exact HF3.
+    - rewrite <- (fr_err _ _ HF). destruct (ferr f); (split; [reflexivity|]); [exact HF|apply FRel_with_err; exact HF].
+  Qed.
+
+  (* C09 for Eval: every expression tree (valid or not), every destination, every pair of frames with the same
+     table - column names repeated, shaped like temporaries, 10000 of them: both runs do the same *)
+  Theorem eval_sim f g dst e : FRel f g -> fsim (eval ut cx f dst e) (eval ut cx g dst e).
+  Proof.
+    intro HF. unfold eval. rewrite <- (fr_err _ _ HF). destruct (ferr f); [exact HF|].
+    pose proof (execute_sim e f g HF) as H. unfold xsim in H.
+    destruct (execute ut cx e f) as [[r1 n1]| |], (execute ut cx e g) as [[r2 n2]| |]; try contradiction; cbn [obind]; [|exact I].
+    destruct H as [<- HF1]. cbn [fsim].
+    rewrite <- (contains_sim _ f g n1 (fr_cols _ _ HF)).
+    destruct (negb (bytes_eqb n1 dst) && negb (contains f n1)); [apply FRel_drop|]; apply FRel_copy; exact HF1.
+  Qed.
+
+  Theorem eval_congr_full f g t dst e :
+    abs f = Ok t -> abs g = Ok t -> ferr f = ferr g -> wf_frame f = true -> wf_frame g = true ->
+    NoDup (ix f) -> NoDup (ix g) ->
+    same_result (eval ut cx f dst e) (eval ut cx g dst e).
+  Proof.
+    intros Hf Hg He Hw1 Hw2 Hn1 Hn2. apply fsim_same_result. apply eval_sim.
+    apply (FRel_of_abs f g t); assumption.
+  Qed.
+End EvalSim.
+
+(* ================================================================== QFrame.Filter, directly on the executed model
+   filter_congr above goes through the row-wise specification and inherits the premises of the C02 theorem.  Here
+   the executed model itself - generated kernels, shared masks, leaf batching, orFrames, the Not merge - is run
+   on the two frames side by side.  What remains as premise is what the implementation really reads beyond the
+   logical table: the enum value lists (ranks).  *)
+From QF Require Import Base.KernelSyntax Model.Bits Model.Kernel.
+
+Section KernelSim.
+  Variables env1 env2 : kenv.
+  Hypothesis Hconst : k_const env1 = k_const env2.
+  Hypothesis Hinset : forall v, k_inset env1 v = k_inset env2 v.
+  Hypothesis Hmatch : forall s, k_match env1 s = k_match env2 s.
+  Hypothesis Hbitset : k_bitset env1 = k_bitset env2.
+  Hypothesis Hfn : forall vs, k_fn env1 vs = k_fn env2 vs.
+
+  Definition cells_agree (p q : nat) : Prop := forall n, k_cell env1 n p = k_cell env2 n q.
+
+  Lemma keval_sim p q : cells_agree p q -> forall e, keval env1 p e = keval env2 q e.
+  Proof.
+    intro Hc. fix IH 1. intro e.
+    destruct e as [n| |z| | |a b|a b|a b|a b|a b|a b|a b|a b|a|a b|a|a|a|a|a|a|args|]; cbn [keval]; cbv zeta;
+      try reflexivity;
+      repeat match goal with |- context [keval env1 p ?x] => rewrite (IH x) end;
+      try reflexivity.
+    - apply Hc.
+    - rewrite Hconst. reflexivity.
+    - destruct (keval env2 q a) as [x| |]; cbn [obind]; try reflexivity. rewrite Hinset. reflexivity.
+    - destruct (keval env2 q a) as [[| | |s| |]| |]; cbn [obind]; try reflexivity. rewrite Hmatch. reflexivity.
+    - rewrite Hbitset. reflexivity.
+    - assert (Hargs : (fix go (l : list kexpr) : outcome (list kval) :=
+                         match l with [] => Ok [] | a :: l' => do v <- keval env1 p a; do vs <- go l'; Ok (v :: vs) end) args
+                      = (fix go (l : list kexpr) : outcome (list kval) :=
+                         match l with [] => Ok [] | a :: l' => do v <- keval env2 q a; do vs <- go l'; Ok (v :: vs) end) args).
+      { induction args as [|a args IHa]; [reflexivity|]. rewrite (IH a), IHa. reflexivity. }
+      rewrite Hargs. clear Hargs.
+      match goal with |- obind ?X _ = obind ?X _ => destruct X as [vs| |] end; cbn [obind]; try reflexivity.
+      rewrite Hfn. reflexivity.
+  Qed.
+
+  Lemma guarded_loop_sim c e : forall b i1 i2,
+    Forall2 cells_agree i1 i2 -> guarded_loop env1 c e i1 b = guarded_loop env2 c e i2 b.
+  Proof.
+    induction b as [|x b IH]; intros i1 i2 H; [reflexivity|].
+    inversion H as [|p q i1' i2' Hpq Hrest]; subst; cbn [guarded_loop].
+    - rewrite (IH [] [] (Forall2_nil _)). reflexivity.
+    - rewrite (IH i1' i2' Hrest). destruct (guarded_loop env2 c e i2' b) as [r| |]; cbn [obind]; try reflexivity.
+      destruct x; [reflexivity|].
+      assert (Hgo : match c with None => Ok true | Some ce => do v <- keval env1 p ce; as_bool v end
+                    = match c with None => Ok true | Some ce => do v <- keval env2 q ce; as_bool v end).
+      { destruct c as [ce|]; [rewrite (keval_sim p q Hpq ce)|]; reflexivity. }
+      rewrite Hgo, (keval_sim p q Hpq e). reflexivity.
+  Qed.
+
+  Lemma run_kernel_sim d k i1 i2 b :
+    Forall2 cells_agree i1 i2 -> run_kernel d env1 k i1 b = run_kernel d env2 k i2 b.
+  Proof.
+    intro H. unfold run_kernel.
+    assert (Hd : forall k0, match k0 with
+                            | KNoOp => Ok b | KFill v => Ok (map (fun _ => v) b)
+                            | KGuarded _ e => guarded_loop env1 None e i1 b
+                            | KGuardedIf _ c e => guarded_loop env1 (Some c) e i1 b
+                            | KDelegate _ _ => Panic end
+                          = match k0 with
+                            | KNoOp => Ok b | KFill v => Ok (map (fun _ => v) b)
+                            | KGuarded _ e => guarded_loop env2 None e i2 b
+                            | KGuardedIf _ c e => guarded_loop env2 (Some c) e i2 b
+                            | KDelegate _ _ => Panic end).
+    { intros [| |pr e|pr c e|fn fl]; try reflexivity; apply guarded_loop_sim; exact H. }
+    destruct k as [|v|pr e|pr c e|fn fl];
+      [apply (Hd KNoOp)|apply (Hd (KFill v))|apply (Hd (KGuarded pr e))|apply (Hd (KGuardedIf pr c e))|].
+    destruct (d fn) as [k'|]; [apply Hd|reflexivity].
+  Qed.
+End KernelSim.
+
+(* ---- columns as the filter kernels see them *)
+
+Definition paired (L : pairs) (i1 i2 : list nat) : Prop := Forall2 (fun p q => In (p, q) L) i1 i2.
+
+(* two columns in the same position of the two frames: same type, same enum value list and strictness, the same
+   kernel value (for enum columns: the same RANK) and the same cell at paired positions, the physical lengths *)
+Definition fcol_sim (L : pairs) (n1 n2 : nat) (c1 c2 : coldata) : Prop :=
+  col_type c1 = col_type c2 /\ enum_meta c1 = enum_meta c2 /\ col_len c1 = n1 /\ col_len c2 = n2
+  /\ forall p q, In (p, q) L ->
+       (exists v, raw_kval c1 p = Ok v /\ raw_kval c2 q = Ok v) /\ (exists x, cell_at c1 p = Ok x /\ cell_at c2 q = Ok x).
+
+Lemma Forall2_impl_local {A B} (R S : A -> B -> Prop) l l' : (forall a b, R a b -> S a b) -> Forall2 R l l' -> Forall2 S l l'.
+Proof. intros H F. induction F; constructor; auto. Qed.
+
+Definition kc_agree (kc1 kc2 : nat -> nat -> outcome kval) (i1 i2 : list nat) : Prop :=
+  Forall2 (fun p q => forall n, kc1 n p = kc2 n q) i1 i2.
+
+Lemma run_sim letter fname env1 env2 i1 i2 b :
+  k_const env1 = k_const env2 -> (forall v, k_inset env1 v = k_inset env2 v) ->
+  (forall s, k_match env1 s = k_match env2 s) -> k_bitset env1 = k_bitset env2 ->
+  (forall vs, k_fn env1 vs = k_fn env2 vs) -> kc_agree (k_cell env1) (k_cell env2) i1 i2 ->
+  run letter fname env1 i1 b = run letter fname env2 i2 b.
+Proof.
+  intros H1 H2 H3 H4 H5 H6. unfold run. destruct (kernel_named GenKernels.g_kernels (kname letter fname)); [|reflexivity].
+  apply (run_kernel_sim env1 env2 H1 H2 H3 H4 H5). exact H6.
+Qed.
+
+Lemma run_tbl_sim t letter cmp env1 env2 i1 i2 b :
+  k_const env1 = k_const env2 -> (forall v, k_inset env1 v = k_inset env2 v) ->
+  (forall s, k_match env1 s = k_match env2 s) -> k_bitset env1 = k_bitset env2 ->
+  (forall vs, k_fn env1 vs = k_fn env2 vs) -> kc_agree (k_cell env1) (k_cell env2) i1 i2 ->
+  run_tbl t letter cmp env1 i1 b = run_tbl t letter cmp env2 i2 b.
+Proof. intros. unfold run_tbl. destruct (assocb cmp t); [apply run_sim; assumption|reflexivity]. Qed.
+
+Section ColFilterSim.
+  Variable L : pairs.
+  Variables n1 n2 : nat.
+  Variables i1 i2 : list nat.
+  Hypothesis Hpair : paired L i1 i2.
+
+  Lemma base_agree x1 x2 y1 y2 k :
+    fcol_sim L n1 n2 x1 x2 ->
+    match y1, y2 with None, None => True | Some a, Some b => fcol_sim L n1 n2 a b | _, _ => False end ->
+    kc_agree (k_cell (base_env x1 y1 k)) (k_cell (base_env x2 y2 k)) i1 i2.
+  Proof.
+    intros Hx Hy. unfold kc_agree. eapply Forall2_impl_local; [|exact Hpair]. intros p q Hpq n. cbn [k_cell base_env].
+    destruct n as [|n].
+    - destruct Hx as [_ [_ [_ [_ Hx]]]]. destruct (Hx p q Hpq) as [[v [V1 V2]] _]. congruence.
+    - destruct y1 as [a|], y2 as [b|]; try contradiction; [|reflexivity].
+      destruct Hy as [_ [_ [_ [_ Hy]]]]. destruct (Hy p q Hpq) as [[v [V1 V2]] _]. congruence.
+  Qed.
+
+  Lemma ptr_agree1 c1 c2 tbl : fcol_sim L n1 n2 c1 c2 -> kc_agree (k_cell (fn1_env c1 tbl)) (k_cell (fn1_env c2 tbl)) i1 i2.
+  Proof.
+    intros [_ [_ [_ [_ Hx]]]]. unfold kc_agree. eapply Forall2_impl_local; [|exact Hpair]. intros p q Hpq n. cbn [k_cell fn1_env].
+    destruct n; [|reflexivity]. unfold ptr_kval. destruct (Hx p q Hpq) as [_ [x [X1 X2]]]. rewrite X1, X2. reflexivity.
+  Qed.
+
+  Lemma ptr_agree2 c1 c2 e1 e2 tbl : fcol_sim L n1 n2 c1 c2 -> fcol_sim L n1 n2 e1 e2 ->
+    kc_agree (k_cell (fn2_env c1 e1 tbl)) (k_cell (fn2_env c2 e2 tbl)) i1 i2.
+  Proof.
+    intros [_ [_ [_ [_ Hx]]]] [_ [_ [_ [_ Hy]]]]. unfold kc_agree. eapply Forall2_impl_local; [|exact Hpair].
+    intros p q Hpq n. cbn [k_cell fn2_env]. unfold ptr_kval.
+    destruct (Hx p q Hpq) as [_ [x [X1 X2]]]. destruct (Hy p q Hpq) as [_ [y [Y1 Y2]]].
+    destruct n; [rewrite X1, X2|rewrite Y1, Y2]; reflexivity.
+  Qed.
+
+  Definition rarg_sim (a1 a2 : rarg) : Prop :=
+    match a1, a2 with
+    | RConst x, RConst y => x = y
+    | RCol c1, RCol c2 => fcol_sim L n1 n2 c1 c2
+    | _, _ => False
+    end.
+
+  Ltac env_eqs := try reflexivity; try (intros; reflexivity).
+
+  Lemma col_filter_sim mt c1 c2 cmp a1 a2 b :
+    fcol_sim L n1 n2 c1 c2 -> rarg_sim a1 a2 ->
+    col_filter mt c1 i1 cmp a1 b = col_filter mt c2 i2 cmp a2 b.
+  Proof.
+    intros Hc Ha. pose proof Hc as [Ht [Hm [Hl1 [Hl2 _]]]].
+    assert (Hft : forall t, fn_type_ok c1 t = fn_type_ok c2 t) by (intro t; unfold fn_type_ok, col_ftype; rewrite Ht; reflexivity).
+    assert (Hlet : letter_of c1 = letter_of c2) by (destruct c1, c2; try discriminate Ht; reflexivity).
+    destruct cmp as [s|t tbl|t tbl|]; cbn [col_filter]; [| | |reflexivity].
+    - (* built in comparators *)
+      destruct c1 as [d1|d1|d1|d1|d1 v1 s1], c2 as [d2|d2|d2|d2|d2 v2 s2]; try discriminate Ht.
+      + unfold i_filter_builtin. destruct a1 as [x|e1], a2 as [y|e2]; try contradiction; cbn [rarg_sim] in Ha.
+        * subst y. destruct (int_comp x) as [z|]; [apply run_tbl_sim; env_eqs; apply base_agree; [exact Hc|exact I]|].
+          destruct (int_set x) as [st|]; [apply run_tbl_sim; env_eqs; apply (base_agree _ _ None None VBad); [exact Hc|exact I]|].
+          destruct x; try reflexivity. apply run_tbl_sim; env_eqs; apply base_agree; [exact Hc|exact I].
+        * pose proof Ha as [Hte _]. destruct e1, e2; try discriminate Hte; try reflexivity.
+          apply run_tbl_sim; env_eqs; apply base_agree; [exact Hc|exact Ha].
+      + unfold f_filter_builtin. destruct a1 as [x|e1], a2 as [y|e2]; try contradiction; cbn [rarg_sim] in Ha.
+        * subst y. destruct x; try reflexivity.
+          -- destruct (f_isnan b0); [reflexivity|]. apply run_tbl_sim; env_eqs; apply base_agree; [exact Hc|exact I].
+          -- apply run_tbl_sim; env_eqs; apply base_agree; [exact Hc|exact I].
+        * pose proof Ha as [Hte _]. destruct e1, e2; try discriminate Hte; try reflexivity.
+          apply run_tbl_sim; env_eqs; apply base_agree; [exact Hc|exact Ha].
+      + unfold b_filter_builtin. destruct a1 as [x|e1], a2 as [y|e2]; try contradiction; cbn [rarg_sim] in Ha.
+        * subst y. destruct x; try reflexivity. apply run_tbl_sim; env_eqs; apply base_agree; [exact Hc|exact I].
+        * pose proof Ha as [Hte _]. destruct e1, e2; try discriminate Hte; try reflexivity.
+          apply run_tbl_sim; env_eqs; apply base_agree; [exact Hc|exact Ha].
+      + unfold s_filter_builtin. destruct a1 as [x|e1], a2 as [y|e2]; try contradiction; cbn [rarg_sim] in Ha.
+        * subst y. destruct (norm_strs x); try reflexivity.
+          -- destruct (assocb s GenTables.t_s_filter1) as [fname|]; [|reflexivity].
+             destruct (kernel_named GenKernels.g_kernels (kname L_s fname)) as [[| | | |fn flag]|] eqn:Ek;
+               try (apply run_sim; env_eqs; apply base_agree; [exact Hc|exact I]).
+             destruct (find_matcher mt s0 flag) as [[m|]|]; try reflexivity.
+             apply run_sim; env_eqs. cbn [k_cell]. apply base_agree; [exact Hc|exact I].
+          -- apply run_tbl_sim; env_eqs. cbn [k_cell str_set_env]. apply base_agree; [exact Hc|exact I].
+          -- apply run_tbl_sim; env_eqs; apply base_agree; [exact Hc|exact I].
+        * pose proof Ha as [Hte _]. destruct e1, e2; try discriminate Hte; try reflexivity.
+          apply run_tbl_sim; env_eqs; apply base_agree; [exact Hc|exact Ha].
+      + cbn [enum_meta] in Hm. inversion Hm; subst v2 s2.
+        unfold e_filter_builtin. destruct a1 as [x|e1], a2 as [y|e2]; try contradiction; cbn [rarg_sim] in Ha.
+        * subst y. destruct (norm_strs x); try reflexivity.
+          -- destruct (assocb s GenTables.t_e_filter1) as [fname|].
+             ++ destruct (find_value v1 s0 0%N) as [r|]; [|reflexivity].
+                apply run_sim; env_eqs; apply base_agree; [exact Hc|exact I].
+             ++ destruct (assocb s GenTables.t_e_filterLike) as [fname|]; [|reflexivity].
+                destruct (is_like fname) as [flag|]; [|reflexivity].
+                destruct (find_matcher mt s0 flag) as [[m|]|]; try reflexivity.
+                apply run_sim; env_eqs. cbn [k_cell with_bitset]. apply base_agree; [exact Hc|exact I].
+          -- destruct (assocb s GenTables.t_e_filterN); [|reflexivity].
+             apply run_sim; env_eqs. cbn [k_cell with_bitset]. apply base_agree; [exact Hc|exact I].
+          -- apply run_tbl_sim; env_eqs; apply base_agree; [exact Hc|exact I].
+        * pose proof Ha as [Hte [Hme [Hle1 [Hle2 _]]]]. destruct e1 as [x1|x1|x1|x1|x1 w1 t1], e2 as [x2|x2|x2|x2|x2 w2 t2];
+            try discriminate Hte; try reflexivity.
+          cbn [enum_meta] in Hme. inversion Hme; subst w2 t2. cbn [col_len] in *.
+          replace (equal_types v1 (length d2) w1 (length x2)) with (equal_types v1 (length d1) w1 (length x1))
+            by (unfold equal_types; rewrite Hl1, Hl2, Hle1, Hle2, !Nat.eqb_refl; reflexivity).
+          destruct (equal_types v1 (length d1) w1 (length x1)); [|reflexivity].
+          apply run_tbl_sim; env_eqs. apply base_agree; [exact Hc|].
+          destruct Ha as [A1 [A2 [A3 [A4 A5]]]]. split; [reflexivity|]. split; [reflexivity|]. split; [exact A3|]. split; [exact A4|exact A5].
+    - rewrite <- Hft, <- Hlet. destruct (fn_type_ok c1 t); [|reflexivity].
+      apply run_sim; env_eqs. apply ptr_agree1. exact Hc.
+    - rewrite <- Hft, <- Hlet. destruct (fn_type_ok c1 t); [|reflexivity].
+      destruct a1 as [x|e1], a2 as [y|e2]; try contradiction; [reflexivity|]. cbn [rarg_sim] in Ha.
+      pose proof Ha as [Hte _]. rewrite <- Ht, <- Hte. destruct (ctype_eqb (col_type c1) (col_type e1)); [|reflexivity].
+      apply run_sim; env_eqs. apply ptr_agree2; assumption.
+  Qed.
+End ColFilterSim.
+
+(* ---- the frame level: leaves, masks, index merging *)
+
+Lemma paired_combine (i1 i2 : list nat) : length i1 = length i2 -> paired (combine i1 i2) i1 i2.
+Proof.
+  revert i2. induction i1 as [|p i1 IH]; intros [|q i2] H; try discriminate; [constructor|].
+  constructor; [left; reflexivity|]. eapply Forall2_impl_local; [|apply IH; simpl in H; lia].
+  intros a b Hab. right. exact Hab.
+Qed.
+
+Lemma paired_length L i1 i2 : paired L i1 i2 -> length i1 = length i2.
+Proof. induction 1; simpl; congruence. Qed.
+
+Lemma fcol_float_slice L n1 n2 d1 d2 :
+  fcol_sim L n1 n2 (ICol d1) (ICol d2) -> fcol_sim L n1 n2 (FCol (float_slice d1)) (FCol (float_slice d2)).
+Proof.
+  intros [_ [_ [H1 [H2 H]]]]. cbn [col_len] in *. unfold float_slice.
+  split; [reflexivity|]. split; [reflexivity|]. split; [cbn [col_len]; rewrite map_length; exact H1|].
+  split; [cbn [col_len]; rewrite map_length; exact H2|].
+  intros p q Hpq. destruct (H p q Hpq) as [[v [V1 V2]] _]. cbn [raw_kval cell_at] in *. unfold idx in *.
+  rewrite !nth_error_map.
+  destruct (nth_error d1 p) as [z1|]; cbn [of_option obind] in V1; [|discriminate].
+  destruct (nth_error d2 q) as [z2|]; cbn [of_option obind] in V2; [|discriminate].
+  assert (z1 = z2) by congruence. subst z2. cbn [option_map of_option obind].
+  split; eexists; split; reflexivity.
+Qed.
+
+Section FrameFilterSim.
+  Variable mt : matcher_table.
+  Variables f g : frame.
+  Variable L : pairs.
+  Hypothesis H121 : one2one L.
+  (* every name resolves in the two frames to columns that look alike to the kernels *)
+  Hypothesis Hcols : forall name,
+    match lookup_col f name, lookup_col g name with
+    | None, None => True
+    | Some c1, Some c2 => fcol_sim L (phys_len f) (phys_len g) c1 c2
+    | _, _ => False
+    end.
+
+  (* frames derived from f and g by filtering: same columns, paired row indexes *)
+  Definition Sub (a b : frame) : Prop :=
+    cols a = cols f /\ cols b = cols g /\ ferr a = ferr b /\ paired L (ix a) (ix b).
+
+  Lemma Sub_lookup a b name : Sub a b ->
+    match lookup_col a name, lookup_col b name with
+    | None, None => True
+    | Some c1, Some c2 => fcol_sim L (phys_len f) (phys_len g) c1 c2
+    | _, _ => False
+    end.
+  Proof.
+    intros [Ha [Hb _]]. rewrite (lookup_col_cols_eq f a name Ha), (lookup_col_cols_eq g b name Hb). apply Hcols.
+  Qed.
+
+  Lemma filter_leaf_sim a b l m : Sub a b -> filter_leaf mt a l m = filter_leaf mt b l m.
+  Proof.
+    intro HS. rewrite !filter_leaf_unfold. pose proof (Sub_lookup a b (lcol l) HS) as Hl.
+    destruct (lookup_col a (lcol l)) as [s1|], (lookup_col b (lcol l)) as [s2|]; try contradiction; [|reflexivity].
+    destruct HS as [Ha [Hb [He Hp]]].
+    assert (Hops : match leaf_operands a l s1, leaf_operands b l s2 with
+                   | Ok (s1', a1), Ok (s2', a2) =>
+                       fcol_sim L (phys_len f) (phys_len g) s1' s2' /\ rarg_sim L (phys_len f) (phys_len g) a1 a2
+                   | Fail, Fail => True
+                   | _, _ => False
+                   end).
+    { unfold leaf_operands. destruct (larg l) eqn:Ea; try (split; [exact Hl|reflexivity]).
+      pose proof (Sub_lookup a b n (conj Ha (conj Hb (conj He Hp)))) as Hn.
+      destruct (lookup_col a n) as [e1|], (lookup_col b n) as [e2|]; try contradiction; [|exact I].
+      pose proof Hl as [Ht _]. pose proof Hn as [Hte _].
+      destruct s1, s2; try discriminate Ht; destruct e1, e2; try discriminate Hte;
+        try (split; [exact Hl|exact Hn]).
+      - split; [apply fcol_float_slice; exact Hl|exact Hn].
+      - split; [exact Hl|cbn [rarg_sim]; apply fcol_float_slice; exact Hn]. }
+    destruct (leaf_operands a l s1) as [[s1' a1]| |], (leaf_operands b l s2) as [[s2' a2]| |]; try contradiction; [|reflexivity].
+    cbn [obind]. destruct Hops as [Hs Hr].
+    assert (Heq : forall cmp m0, col_filter mt s1' (ix a) cmp a1 m0 = col_filter mt s2' (ix b) cmp a2 m0).
+    { intros cmp m0. apply (col_filter_sim L _ _ (ix a) (ix b) Hp mt s1' s2' cmp a1 a2 m0 Hs Hr). }
+    unfold leaf_body. destruct (linv l); [|apply Heq].
+    destruct (lcmp l) as [sc|t tbl|t tbl|]; try (rewrite Heq; reflexivity).
+    destruct (is_order_comparator sc); [rewrite Heq; reflexivity|].
+    destruct (assocb sc GenTables.t_filter_inverse) as [inv|]; rewrite !Heq; reflexivity.
+  Qed.
+
+  Lemma index_filter_sim : forall (m : list bool) i1 i2, paired L i1 i2 ->
+    match index_filter i1 m, index_filter i2 m with
+    | Ok r1, Ok r2 => paired L r1 r2
+    | Panic, Panic => True
+    | _, _ => False
+    end.
+  Proof.
+    induction m as [|x m IH]; intros i1 i2 H; cbn [index_filter]; [constructor|].
+    inversion H as [|p q i1' i2' Hpq Hrest]; subst.
+    - destruct x; [exact I|]. apply (IH [] [] (Forall2_nil _)).
+    - specialize (IH i1' i2' Hrest).
+      destruct (index_filter i1' m) as [r1| |], (index_filter i2' m) as [r2| |]; try contradiction; cbn [obind]; [|exact I].
+      destruct x; [constructor; assumption|exact IH].
+  Qed.
+
+  Definition sub_out (o1 o2 : outcome frame) : Prop :=
+    match o1, o2 with
+    | Ok a, Ok b => Sub a b
+    | Panic, Panic => True
+    | _, _ => False
+    end.
+
+  Lemma Sub_with_err a b : Sub a b -> Sub (with_err a) (with_err b).
+  Proof. intros [H1 [H2 [H3 H4]]]. repeat split; assumption. Qed.
+
+  Lemma Sub_with_ix a b i j : Sub a b -> paired L i j -> Sub (with_ix a i) (with_ix b j).
+  Proof. intros [H1 [H2 [H3 H4]]] H. repeat split; assumption. Qed.
+
+  Lemma filter_leaves_sim a b ls : Sub a b -> sub_out (filter_leaves mt a ls) (filter_leaves mt b ls).
+  Proof.
+    intro HS. pose proof HS as [Ha [Hb [He Hp]]]. unfold filter_leaves. rewrite <- He. destruct (ferr a); [exact HS|].
+    assert (Hfold : forall ls0 (acc : outcome (list bool)),
+              fold_left (fun acc0 x => do m <- acc0; filter_leaf mt a x m) ls0 acc
+              = fold_left (fun acc0 x => do m <- acc0; filter_leaf mt b x m) ls0 acc).
+    { induction ls0 as [|l ls0 IH]; intro acc; [reflexivity|]. cbn [fold_left].
+      assert (E : (do m <- acc; filter_leaf mt a l m) = (do m <- acc; filter_leaf mt b l m)).
+      { destruct acc as [m| |]; cbn [obind]; try reflexivity. apply filter_leaf_sim. exact HS. }
+      rewrite E. apply IH. }
+    unfold ofold. rewrite Hfold, (map_const_repeat false (ix a)), (paired_length L _ _ Hp), <- (map_const_repeat false (ix b)).
+    destruct (fold_left _ ls (Ok (map (fun _ => false) (ix b)))) as [m| |]; [|apply Sub_with_err; exact HS|exact I].
+    pose proof (index_filter_sim m (ix a) (ix b) Hp) as Hi.
+    destruct (index_filter (ix a) m) as [r1| |], (index_filter (ix b) m) as [r2| |]; try contradiction; cbn [obind]; [|exact I].
+    apply Sub_with_ix; assumption.
+  Qed.
+
+  (* ---- index merging: orFrames and the Not merge compare positions for equality; paired positions are equal in
+     the one frame exactly when they are equal in the other *)
+  Lemma eqb_pair x1 x2 p1 p2 : In (x1, x2) L -> In (p1, p2) L -> Nat.eqb x1 p1 = Nat.eqb x2 p2.
+  Proof.
+    intros Hx Hp. destruct (H121 x1 x2 p1 p2 Hx Hp) as [A B].
+    destruct (Nat.eqb x1 p1) eqn:E1, (Nat.eqb x2 p2) eqn:E2; try reflexivity.
+    - apply Nat.eqb_eq in E1. apply Nat.eqb_neq in E2. exfalso. apply E2. apply A. exact E1.
+    - apply Nat.eqb_neq in E1. apply Nat.eqb_eq in E2. exfalso. apply E1. apply B. exact E2.
+  Qed.
+
+  Lemma or_merge_sim : forall o1 o2, paired L o1 o2 -> forall l1 l2 r1 r2,
+    paired L l1 l2 -> paired L r1 r2 -> paired L (or_merge o1 l1 r1) (or_merge o2 l2 r2).
+  Proof.
+    induction 1 as [|p1 p2 o1 o2 Hp Ho IH]; intros l1 l2 r1 r2 Hl Hr; cbn [or_merge]; [constructor|].
+    assert (Hleft : exists (fl : bool) l1' l2', paired L l1' l2'
+              /\ match l1 with x :: l' => if Nat.eqb x p1 then (true, l') else (false, l1) | [] => (false, l1) end = (fl, l1')
+              /\ match l2 with x :: l' => if Nat.eqb x p2 then (true, l') else (false, l2) | [] => (false, l2) end = (fl, l2')).
+    { inversion Hl as [|x1 x2 l1' l2' Hx Hl']; subst.
+      - exists false, [], []. repeat split; constructor.
+      - rewrite (eqb_pair x1 x2 p1 p2 Hx Hp). destruct (Nat.eqb x2 p2).
+        + exists true, l1', l2'. repeat split. exact Hl'.
+        + exists false, (x1 :: l1'), (x2 :: l2'). repeat split. exact Hl. }
+    assert (Hright : exists (fr : bool) r1' r2', paired L r1' r2'
+              /\ match r1 with x :: r' => if Nat.eqb x p1 then (true, r') else (false, r1) | [] => (false, r1) end = (fr, r1')
+              /\ match r2 with x :: r' => if Nat.eqb x p2 then (true, r') else (false, r2) | [] => (false, r2) end = (fr, r2')).
+    { inversion Hr as [|x1 x2 r1' r2' Hx Hr']; subst.
+      - exists false, [], []. repeat split; constructor.
+      - rewrite (eqb_pair x1 x2 p1 p2 Hx Hp). destruct (Nat.eqb x2 p2).
+        + exists true, r1', r2'. repeat split. exact Hr'.
+        + exists false, (x1 :: r1'), (x2 :: r2'). repeat split. exact Hr. }
+    destruct Hleft as [fl [l1' [l2' [Hl' [E1 E2]]]]]. destruct Hright as [fr [r1' [r2' [Hr' [E3 E4]]]]].
+    rewrite E1, E2, E3, E4. destruct (fl || fr); [constructor; [exact Hp|]|]; apply IH; assumption.
+  Qed.
+
+  Lemma not_merge_sim : forall o1 o2, paired L o1 o2 -> forall s1 s2,
+    paired L s1 s2 -> paired L (not_merge o1 s1) (not_merge o2 s2).
+  Proof.
+    induction 1 as [|p1 p2 o1 o2 Hp Ho IH]; intros s1 s2 Hs; cbn [not_merge]; [constructor|].
+    inversion Hs as [|x1 x2 s1' s2' Hx Hs']; subst.
+    - constructor; [exact Hp|]. apply IH. constructor.
+    - rewrite (eqb_pair x1 x2 p1 p2 Hx Hp). destruct (Nat.eqb x2 p2); [apply IH; exact Hs'|].
+      constructor; [exact Hp|]. apply IH. exact Hs.
+  Qed.
+
+  Definition opt_sub (x y : option frame) : Prop :=
+    match x, y with None, None => True | Some a, Some b => Sub a b | _, _ => False end.
+
+  Lemma or_frames_sim a b x y r1 r2 : Sub a b -> opt_sub x y -> Sub r1 r2 -> Sub (or_frames a x r1) (or_frames b y r2).
+  Proof.
+    intros HS Hxy Hr. unfold or_frames. destruct x as [l1|], y as [l2|]; try contradiction; [|exact Hr].
+    cbn [opt_sub] in Hxy. pose proof Hxy as [_ [_ [El Pl]]]. pose proof Hr as [_ [_ [Er Pr]]].
+    rewrite <- El. destruct (ferr l1); [exact Hxy|]. rewrite <- Er. destruct (ferr r1); [exact Hr|].
+    apply Sub_with_ix; [exact HS|]. apply or_merge_sim; [apply HS|exact Pl|exact Pr].
+  Qed.
+
+  Section Loops.
+    Variable cf : clause -> frame -> outcome frame.
+
+    Lemma and_loop_sim : forall cs, Forall (fun c => forall a b, Sub a b -> sub_out (cf c a) (cf c b)) cs ->
+      forall a b, Sub a b -> sub_out (and_loop cf cs a) (and_loop cf cs b).
+    Proof.
+      induction 1 as [|c cs Hc _ IH]; intros a b HS; cbn [and_loop]; [exact HS|].
+      specialize (Hc a b HS). unfold sub_out in Hc.
+      destruct (cf c a) as [a'| |], (cf c b) as [b'| |]; try contradiction; cbn [obind]; [|exact I].
+      apply IH. exact Hc.
+    Qed.
+
+    Lemma or_loop_sim a b : Sub a b -> forall cs,
+      Forall (fun c => forall a0 b0, Sub a0 b0 -> sub_out (cf c a0) (cf c b0)) cs ->
+      forall pending x y, opt_sub x y ->
+      sub_out (or_loop mt cf a cs pending x) (or_loop mt cf b cs pending y).
+    Proof.
+      intros HS cs Hcs. induction Hcs as [|c cs Hc _ IH]; intros pending x y Hxy.
+      - (* the end of the list: flush the pending leaves *)
+        cbn [or_loop]. destruct pending as [|l0 pending0].
+        + cbn [obind]. destruct x as [r1|], y as [r2|]; try contradiction; [exact Hxy|exact I].
+        + pose proof (filter_leaves_sim a b (rev (l0 :: pending0)) HS) as Hf. unfold sub_out in Hf.
+          destruct (filter_leaves mt a (rev (l0 :: pending0))) as [n1| |],
+                   (filter_leaves mt b (rev (l0 :: pending0))) as [n2| |]; try contradiction; cbn [obind]; [|exact I].
+          apply or_frames_sim; assumption.
+      - assert (Hflush : match (match pending with
+                                | [] => Ok x
+                                | _ => do nf <- filter_leaves mt a (rev pending); Ok (Some (or_frames a x nf)) end),
+                               (match pending with
+                                | [] => Ok y
+                                | _ => do nf <- filter_leaves mt b (rev pending); Ok (Some (or_frames b y nf)) end) with
+                         | Ok x', Ok y' => opt_sub x' y'
+                         | Panic, Panic => True
+                         | _, _ => False
+                         end).
+        { destruct pending as [|l0 pending0]; [exact Hxy|].
+          pose proof (filter_leaves_sim a b (rev (l0 :: pending0)) HS) as Hf. unfold sub_out in Hf.
+          destruct (filter_leaves mt a (rev (l0 :: pending0))) as [n1| |],
+                   (filter_leaves mt b (rev (l0 :: pending0))) as [n2| |]; try contradiction; cbn [obind]; [|exact I].
+          cbn [opt_sub]. apply or_frames_sim; assumption. }
+        assert (Hstep : forall c0, c0 = c ->
+                  sub_out (do acc' <- (match pending with
+                                       | [] => Ok x
+                                       | _ => do nf <- filter_leaves mt a (rev pending); Ok (Some (or_frames a x nf)) end);
+                           do nf <- cf c0 a; or_loop mt cf a cs [] (Some (or_frames a acc' nf)))
+                          (do acc' <- (match pending with
+                                       | [] => Ok y
+                                       | _ => do nf <- filter_leaves mt b (rev pending); Ok (Some (or_frames b y nf)) end);
+                           do nf <- cf c0 b; or_loop mt cf b cs [] (Some (or_frames b acc' nf)))).
+        { intros c0 ->.
+          destruct (match pending with [] => Ok x | _ => _ end) as [x'| |],
+                   (match pending with [] => Ok y | _ => _ end) as [y'| |]; try contradiction; cbn [obind]; [|exact I].
+          specialize (Hc a b HS). unfold sub_out in Hc.
+          destruct (cf c a) as [n1| |], (cf c b) as [n2| |]; try contradiction; cbn [obind]; [|exact I].
+          apply IH. cbn [opt_sub]. apply or_frames_sim; assumption. }
+        destruct c as [l| | | |]; cbn [or_loop]; try (apply Hstep; reflexivity).
+        apply IH. exact Hxy.
+    Qed.
+  End Loops.
+
+  Theorem clause_filter_sim c : forall a b, Sub a b -> sub_out (clause_filter mt c a) (clause_filter mt c b).
+  Proof.
+    induction c as [l| |c IH|cs IH|cs IH] using clause_ind2; intros a b HS; pose proof HS as [_ [_ [He Hp]]]; cbn [clause_filter].
+    - apply filter_leaves_sim. exact HS.
+    - exact HS.
+    - rewrite <- He. destruct (ferr a); [exact HS|].
+      destruct (clause_err (CNot c)); [apply Sub_with_err; exact HS|].
+      assert (Hgen : sub_out (do nf <- clause_filter mt c a; if ferr nf then Ok nf else Ok (with_ix a (not_merge (ix a) (ix nf))))
+                             (do nf <- clause_filter mt c b; if ferr nf then Ok nf else Ok (with_ix b (not_merge (ix b) (ix nf))))).
+      { specialize (IH a b HS). unfold sub_out in IH.
+        destruct (clause_filter mt c a) as [n1| |], (clause_filter mt c b) as [n2| |]; try contradiction; cbn [obind]; [|exact I].
+        pose proof IH as [_ [_ [En Pn]]]. rewrite <- En. destruct (ferr n1); [exact IH|].
+        apply Sub_with_ix; [exact HS|]. apply not_merge_sim; assumption. }
+      destruct c as [l| | | |]; try exact Hgen. apply filter_leaves_sim. exact HS.
+    - rewrite <- He. destruct (ferr a); [exact HS|].
+      destruct (clause_err (CAnd cs)); [apply Sub_with_err; exact HS|].
+      apply and_loop_sim; [exact IH|exact HS].
+    - rewrite <- He. destruct (ferr a); [exact HS|].
+      destruct (clause_err (COr cs)); [apply Sub_with_err; exact HS|].
+      apply or_loop_sim; [exact HS|exact IH|exact I].
+  Qed.
+
+  Theorem frame_filter_sim c a b : Sub a b -> sub_out (frame_filter mt a c) (frame_filter mt b c).
+  Proof.
+    intro HS. unfold frame_filter. pose proof HS as [_ [_ [He _]]]. rewrite <- He.
+    destruct (ferr a); [exact HS|apply clause_filter_sim; exact HS].
+  Qed.
+End FrameFilterSim.
+
+(* ---- the index Filter returns is duplicate free when the frame's is (it is a sub-sequence of it) *)
+
+Lemma index_filter_in : forall m i r x, index_filter i m = Ok r -> In x r -> In x i.
+Proof.
+  induction m as [|b m IH]; intros i r x H Hx; cbn [index_filter] in H; [inversion H; subst; destruct Hx|].
+  destruct i as [|p i].
+  - destruct b; [discriminate|]. apply (IH [] r x H Hx).
+  - destruct (index_filter i m) as [r'| |] eqn:E; cbn [obind] in H; try discriminate. inversion H; subst r.
+    destruct b; [destruct Hx as [<-|Hx]; [left; reflexivity|right; apply (IH i r' x E Hx)]|right; apply (IH i r' x E Hx)].
+Qed.
+
+Lemma index_filter_nodup : forall m i r, NoDup i -> index_filter i m = Ok r -> NoDup r.
+Proof.
+  induction m as [|b m IH]; intros i r Hnd H; cbn [index_filter] in H; [inversion H; constructor|].
+  destruct i as [|p i].
+  - destruct b; [discriminate|]. apply (IH [] r Hnd H).
+  - inversion Hnd as [|? ? Hnotin Hnd']; subst.
+    destruct (index_filter i m) as [r'| |] eqn:E; cbn [obind] in H; try discriminate. inversion H; subst r.
+    destruct b; [|apply (IH i r' Hnd' E)]. constructor; [|apply (IH i r' Hnd' E)].
+    intro Hin. apply Hnotin. apply (index_filter_in m i r' p E Hin).
+Qed.
+
+Lemma or_merge_in : forall orig l r x, In x (or_merge orig l r) -> In x orig.
+Proof.
+  induction orig as [|p orig IH]; intros l r x H; cbn [or_merge] in H; [destruct H|].
+  destruct (match l with x0 :: l' => if Nat.eqb x0 p then (true, l') else (false, l) | [] => (false, l) end) as [fl l'].
+  destruct (match r with x0 :: r' => if Nat.eqb x0 p then (true, r') else (false, r) | [] => (false, r) end) as [fr r'].
+  destruct (fl || fr); [destruct H as [<-|H]; [left; reflexivity|]|]; right; apply (IH l' r' x H).
+Qed.
+
+Lemma or_merge_nodup : forall orig l r, NoDup orig -> NoDup (or_merge orig l r).
+Proof.
+  induction orig as [|p orig IH]; intros l r H; cbn [or_merge]; [constructor|].
+  inversion H as [|? ? Hnotin Hnd]; subst.
+  destruct (match l with x0 :: l' => if Nat.eqb x0 p then (true, l') else (false, l) | [] => (false, l) end) as [fl l'].
+  destruct (match r with x0 :: r' => if Nat.eqb x0 p then (true, r') else (false, r) | [] => (false, r) end) as [fr r'].
+  destruct (fl || fr); [|apply IH; exact Hnd]. constructor; [|apply IH; exact Hnd].
+  intro Hin. apply Hnotin. apply (or_merge_in orig l' r' p Hin).
+Qed.
+
+Lemma not_merge_in : forall orig s x, In x (not_merge orig s) -> In x orig.
+Proof.
+  induction orig as [|p orig IH]; intros s x H; cbn [not_merge] in H; [destruct H|].
+  destruct s as [|y s'].
+  - destruct H as [<-|H]; [left; reflexivity|right; apply (IH [] x H)].
+  - destruct (Nat.eqb y p); [right; apply (IH s' x H)|].
+    destruct H as [<-|H]; [left; reflexivity|right; apply (IH (y :: s') x H)].
+Qed.
+
+Lemma not_merge_nodup : forall orig s, NoDup orig -> NoDup (not_merge orig s).
+Proof.
+  induction orig as [|p orig IH]; intros s H; cbn [not_merge]; [constructor|].
+  inversion H as [|? ? Hnotin Hnd]; subst.
+  destruct s as [|y s'].
+  - constructor; [intro Hin; apply Hnotin; apply (not_merge_in orig [] p Hin)|apply IH; exact Hnd].
+  - destruct (Nat.eqb y p); [apply IH; exact Hnd|].
+    constructor; [intro Hin; apply Hnotin; apply (not_merge_in orig (y :: s') p Hin)|apply IH; exact Hnd].
+Qed.
+
+Section FilterNoDup.
+  Variable mt : matcher_table.
+
+  Lemma filter_leaves_nodup a ls r : NoDup (ix a) -> filter_leaves mt a ls = Ok r -> NoDup (ix r).
+  Proof.
+    intros Hnd H. unfold filter_leaves in H. destruct (ferr a); [inversion H; subst; exact Hnd|].
+    destruct (ofold _ ls _) as [m| |]; try discriminate; [|inversion H; subst; exact Hnd].
+    destruct (index_filter (ix a) m) as [i| |] eqn:E; cbn [obind] in H; try discriminate. inversion H; subst r.
+    cbn [ix with_ix]. apply (index_filter_nodup m (ix a) i Hnd E).
+  Qed.
+
+  Lemma or_frames_nodup orig x r : NoDup (ix orig) -> (forall l, x = Some l -> NoDup (ix l)) -> NoDup (ix r) ->
+    NoDup (ix (or_frames orig x r)).
+  Proof.
+    intros Ho Hx Hr. unfold or_frames. destruct x as [l|]; [|exact Hr].
+    destruct (ferr l); [apply Hx; reflexivity|]. destruct (ferr r); [exact Hr|]. cbn [ix with_ix]. apply or_merge_nodup. exact Ho.
+  Qed.
+
+  Section Loops.
+    Variable cf : clause -> frame -> outcome frame.
+
+    Lemma and_loop_nodup : forall cs, Forall (fun c => forall a r, NoDup (ix a) -> cf c a = Ok r -> NoDup (ix r)) cs ->
+      forall a r, NoDup (ix a) -> and_loop cf cs a = Ok r -> NoDup (ix r).
+    Proof.
+      induction 1 as [|c cs Hc _ IH]; intros a r Hnd H; cbn [and_loop] in H; [inversion H; subst; exact Hnd|].
+      destruct (cf c a) as [a'| |] eqn:E; cbn [obind] in H; try discriminate.
+      apply (IH a' r (Hc a a' Hnd E) H).
+    Qed.
+
+    Lemma or_loop_nodup a : NoDup (ix a) -> forall cs,
+      Forall (fun c => forall a0 r, NoDup (ix a0) -> cf c a0 = Ok r -> NoDup (ix r)) cs ->
+      forall pending x r, (forall l, x = Some l -> NoDup (ix l)) -> or_loop mt cf a cs pending x = Ok r -> NoDup (ix r).
+    Proof.
+      intros Hnd cs Hcs. induction Hcs as [|c cs Hc _ IH]; intros pending x r Hx H.
+      - cbn [or_loop] in H. destruct pending as [|l0 pending0].
+        + cbn [obind] in H. destruct x as [l|]; [|discriminate]. inversion H; subst. apply Hx. reflexivity.
+        + destruct (filter_leaves mt a (rev (l0 :: pending0))) as [nf| |] eqn:E; cbn [obind] in H; try discriminate.
+          inversion H; subst r. apply or_frames_nodup; [exact Hnd|exact Hx|apply (filter_leaves_nodup a _ nf Hnd E)].
+      - assert (Hstep : (do acc' <- (match pending with
+                                     | [] => Ok x
+                                     | _ => do nf <- filter_leaves mt a (rev pending); Ok (Some (or_frames a x nf)) end);
+                         do nf <- cf c a; or_loop mt cf a cs [] (Some (or_frames a acc' nf))) = Ok r -> NoDup (ix r)).
+        { intro H0.
+          destruct (match pending with [] => Ok x | _ => _ end) as [x'| |] eqn:Ef; cbn [obind] in H0; try discriminate.
+          assert (Hx' : forall l, x' = Some l -> NoDup (ix l)).
+          { destruct pending as [|l0 pending0]; [inversion Ef; subst; exact Hx|].
+            destruct (filter_leaves mt a (rev (l0 :: pending0))) as [nf| |] eqn:E; cbn [obind] in Ef; try discriminate.
+            inversion Ef; subst x'. intros l Hl. inversion Hl; subst l.
+            apply or_frames_nodup; [exact Hnd|exact Hx|apply (filter_leaves_nodup a _ nf Hnd E)]. }
+          destruct (cf c a) as [nf| |] eqn:E; cbn [obind] in H0; try discriminate.
+          apply (IH [] (Some (or_frames a x' nf)) r); [|exact H0]. intros l Hl. inversion Hl; subst l.
+          apply or_frames_nodup; [exact Hnd|exact Hx'|apply (Hc a nf Hnd E)]. }
+        destruct c as [l| | | |]; cbn [or_loop] in H; try (apply Hstep; exact H).
+        apply (IH (l :: pending) x r Hx H).
+    Qed.
+  End Loops.
+
+  Theorem clause_filter_nodup c : forall a r, NoDup (ix a) -> clause_filter mt c a = Ok r -> NoDup (ix r).
+  Proof.
+    induction c as [l| |c IH|cs IH|cs IH] using clause_ind2; intros a r Hnd H; cbn [clause_filter] in H.
+    - apply (filter_leaves_nodup a [l] r Hnd H).
+    - inversion H; subst; exact Hnd.
+    - destruct (ferr a); [inversion H; subst; exact Hnd|].
+      destruct (clause_err (CNot c)); [inversion H; subst; exact Hnd|].
+      assert (Hgen : (do nf <- clause_filter mt c a; if ferr nf then Ok nf else Ok (with_ix a (not_merge (ix a) (ix nf)))) = Ok r
+                     -> NoDup (ix r)).
+      { intro H0. destruct (clause_filter mt c a) as [nf| |] eqn:E; cbn [obind] in H0; try discriminate.
+        destruct (ferr nf); inversion H0; subst r; [apply (IH a nf Hnd E)|]. cbn [ix with_ix]. apply not_merge_nodup. exact Hnd. }
+      destruct c as [l| | | |]; try (apply Hgen; exact H). apply (filter_leaves_nodup a _ r Hnd H).
+    - destruct (ferr a); [inversion H; subst; exact Hnd|].
+      destruct (clause_err (CAnd cs)); [inversion H; subst; exact Hnd|].
+      apply (and_loop_nodup _ cs IH a r Hnd H).
+    - destruct (ferr a); [inversion H; subst; exact Hnd|].
+      destruct (clause_err (COr cs)); [inversion H; subst; exact Hnd|].
+      apply (or_loop_nodup _ a Hnd cs IH [] None r); [discriminate|exact H].
+  Qed.
+
+  Theorem frame_filter_nodup c a r : NoDup (ix a) -> frame_filter mt a c = Ok r -> NoDup (ix r).
+  Proof.
+    intros Hnd H. unfold frame_filter in H. destruct (ferr a); [inversion H; subst; exact Hnd|].
+    apply (clause_filter_nodup c a r Hnd H).
+  Qed.
+End FilterNoDup.
+
+(* ---- from "the same logical table" to what the kernels see *)
+
+Definition enum_nodup_col (c : coldata) : Prop := match c with ECol _ vs _ => NoDup vs | _ => True end.
+
+Lemma fcol_intro L n1 n2 c1 c2 :
+  col_sim L c1 c2 -> enum_meta c1 = enum_meta c2 -> col_ok n1 c1 -> col_ok n2 c2 -> enum_nodup_col c1 ->
+  fcol_sim L n1 n2 c1 c2.
+Proof.
+  intros [Ht Hc] Hm [Hl1 Hw1] [Hl2 Hw2] Hnd.
+  split; [exact Ht|]. split; [exact Hm|]. split; [exact Hl1|]. split; [exact Hl2|].
+  intros p q Hpq. destruct (Hc p q Hpq) as [x [X1 X2]]. split; [|exists x; split; assumption].
+  destruct c1 as [d1|d1|d1|d1|d1 v1 s1], c2 as [d2|d2|d2|d2|d2 v2 s2]; try discriminate Ht; cbn [raw_kval cell_at] in *.
+  - destruct (idx d1 p) as [z1| |]; cbn [obind] in X1; try discriminate.
+    destruct (idx d2 q) as [z2| |]; cbn [obind] in X2; try discriminate.
+    exists (VZ z1). split; [reflexivity|]. cbn [obind]. congruence.
+  - destruct (idx d1 p) as [z1| |]; cbn [obind] in X1; try discriminate.
+    destruct (idx d2 q) as [z2| |]; cbn [obind] in X2; try discriminate.
+    exists (VF z1). split; [reflexivity|]. cbn [obind]. congruence.
+  - destruct (idx d1 p) as [z1| |]; cbn [obind] in X1; try discriminate.
+    destruct (idx d2 q) as [z2| |]; cbn [obind] in X2; try discriminate.
+    exists (VB z1). split; [reflexivity|]. cbn [obind]. congruence.
+  - destruct (idx d1 p) as [z1| |]; cbn [obind] in X1; try discriminate.
+    destruct (idx d2 q) as [z2| |]; cbn [obind] in X2; try discriminate.
+    exists (VS z1). split; [reflexivity|]. cbn [obind]. congruence.
+  - cbn [enum_meta] in Hm. inversion Hm; subst v2 s2. cbn [enum_nodup_col] in Hnd.
+    destruct (idx d1 p) as [r1| |]; cbn [obind] in X1; try discriminate.
+    destruct (idx d2 q) as [r2| |]; cbn [obind] in X2; try discriminate.
+    exists (VE r1). split; [reflexivity|]. cbn [obind]. f_equal. f_equal.
+    unfold enum_string in X1, X2.
+    destruct (enum_is_null r1) eqn:N1, (enum_is_null r2) eqn:N2; cbn [obind] in X1, X2.
+    + unfold enum_is_null in N1, N2. apply N.eqb_eq in N1, N2. congruence.
+    + unfold idx in X2. destruct (nth_error v1 (N.to_nat r2)); cbn [of_option obind] in X2; [|discriminate]. congruence.
+    + unfold idx in X1. destruct (nth_error v1 (N.to_nat r1)); cbn [of_option obind] in X1; [|discriminate]. congruence.
+    + unfold idx in X1, X2.
+      destruct (nth_error v1 (N.to_nat r1)) as [a1|] eqn:E1; cbn [of_option obind] in X1; [|discriminate].
+      destruct (nth_error v1 (N.to_nat r2)) as [a2|] eqn:E2; cbn [of_option obind] in X2; [|discriminate].
+      assert (a1 = a2) by congruence. subst a2.
+      rewrite NoDup_nth_error in Hnd. symmetry. apply N2Nat.inj. symmetry. apply Hnd; [apply nth_error_Some; congruence|congruence].
+Qed.
+
+Definition optrel (R : coldata -> coldata -> Prop) (x y : option (nat * coldata)) : Prop :=
+  match x, y with None, None => True | Some (_, c1), Some (_, c2) => R c1 c2 | _, _ => False end.
+
+Lemma lookup_from_rel (R : coldata -> coldata -> Prop) name : forall cs1 cs2 pos acc1 acc2,
+  Forall2 (fun a b : bytes * coldata => fst a = fst b /\ R (snd a) (snd b)) cs1 cs2 -> optrel R acc1 acc2 ->
+  optrel R (lookup_from name cs1 pos acc1) (lookup_from name cs2 pos acc2).
+Proof.
+  induction cs1 as [|[m1 c1] cs1 IH]; intros cs2 pos acc1 acc2 H Ha; inversion H as [|? [m2 c2] ? cs2' [Hn Hr] Hrest]; subst.
+  - exact Ha.
+  - cbn [fst snd] in *. subst m2. cbn [lookup_from]. apply IH; [exact Hrest|].
+    destruct (bytes_eqb m1 name); [exact Hr|exact Ha].
+Qed.
+
+Lemma cols_fsim L n1 n2 : forall cs1 cs2 : list (bytes * coldata),
+  cols_sim L cs1 cs2 -> map (fun nc => enum_meta (snd nc)) cs1 = map (fun nc => enum_meta (snd nc)) cs2 ->
+  Forall (fun nc => col_ok n1 (snd nc)) cs1 -> Forall (fun nc => col_ok n2 (snd nc)) cs2 ->
+  Forall (fun nc => enum_nodup_col (snd nc)) cs1 ->
+  Forall2 (fun a b : bytes * coldata => fst a = fst b /\ fcol_sim L n1 n2 (snd a) (snd b)) cs1 cs2.
+Proof.
+  induction 1 as [|a b l l' [Hn Hs] _ IH]; intros Hm H1 H2 H3; [constructor|].
+  simpl in Hm. inversion Hm. inversion H1; inversion H2; inversion H3; subst.
+  constructor; [split; [exact Hn|apply fcol_intro; assumption]|apply IH; assumption].
+Qed.
+
+Lemma paired_incl L i1 i2 : paired L i1 i2 -> incl (combine i1 i2) L.
+Proof.
+  induction 1 as [|p q i1 i2 Hpq _ IH]; [intros x []|]. intros x [<-|Hx]; [exact Hpq|apply IH; exact Hx].
+Qed.
+
+Lemma Sub_Rel f g L a b : Rel L f g -> Sub f g L a b -> Rel L a b.
+Proof.
+  intros [R1 R2 [W1 _] [W2 _] R5] [Ha [Hb [He Hp]]].
+  assert (P1 : phys_len a = phys_len f) by (unfold phys_len; rewrite Ha; reflexivity).
+  assert (P2 : phys_len b = phys_len g) by (unfold phys_len; rewrite Hb; reflexivity).
+  split; [exact He|rewrite Ha, Hb; exact R2| | |intros p q Hpq; rewrite P1, P2; apply R5; exact Hpq].
+  - split; [unfold wf_cols; rewrite P1, Ha; exact W1|]. rewrite P1. apply Forall_forall. intros p Hp0.
+    apply In_nth_error in Hp0 as [k Hk].
+    destruct (nth_error (ix b) k) as [q|] eqn:E;
+      [|apply nth_error_None in E; pose proof (paired_length L _ _ Hp); assert (k < length (ix a)) by (apply nth_error_Some; congruence); lia].
+    apply (R5 p q). apply (paired_incl L _ _ Hp). apply (nth_combine_In _ _ k p q Hk E).
+  - split; [unfold wf_cols; rewrite P2, Hb; exact W2|]. rewrite P2. apply Forall_forall. intros q Hq0.
+    apply In_nth_error in Hq0 as [k Hk].
+    destruct (nth_error (ix a) k) as [p|] eqn:E;
+      [|apply nth_error_None in E; pose proof (paired_length L _ _ Hp); assert (k < length (ix b)) by (apply nth_error_Some; congruence); lia].
+    apply (R5 p q). apply (paired_incl L _ _ Hp). apply (nth_combine_In _ _ k p q E Hk).
+Qed.
+
+(* C09 for Filter, every clause tree, on the executed model: premises are the common ones, the same enum value
+   lists and strictness (enum_metas) and pairwise different enum values (enum_nodup_b: what the enum factory
+   guarantees; it makes "the rank of a string" well defined).  No premise about recorded tables (where one lacks
+   an entry both runs panic), none about the number of rows, none about the comparator names. *)
+Theorem filter_congr_full mt f g t c :
+  abs f = Ok t -> abs g = Ok t -> ferr f = ferr g -> wf_frame f = true -> wf_frame g = true ->
+  NoDup (ix f) -> NoDup (ix g) -> enum_metas f = enum_metas g -> enum_nodup_b f = true ->
+  filter_sim_out (combine (ix f) (ix g)) f g (frame_filter mt f c) (frame_filter mt g c)
+  /\ same_result (frame_filter mt f c) (frame_filter mt g c).
+Proof.
+  intros Hf Hg He Hw1 Hw2 Hn1 Hn2 Hm Hnd.
+  destruct (rel_of_abs f g t Hf Hg He Hw1 Hw2) as [HR Hl]. set (L := combine (ix f) (ix g)) in *.
+  assert (Hcols : forall name,
+            match lookup_col f name, lookup_col g name with
+            | None, None => True
+            | Some c1, Some c2 => fcol_sim L (phys_len f) (phys_len g) c1 c2
+            | _, _ => False
+            end).
+  { intro name.
+    assert (H3 : Forall (fun nc : bytes * coldata => enum_nodup_col (snd nc)) (cols f)).
+    { apply Forall_forall. intros [m c0] Hin. unfold enum_nodup_b in Hnd. rewrite forallb_forall in Hnd.
+      specialize (Hnd _ Hin). cbn [snd] in *. destruct c0; try exact I.
+      apply (FilterTypedFrame.nodupb_ok bytes_eqb bytes_eqb_spec). exact Hnd. }
+    pose proof (cols_fsim L (phys_len f) (phys_len g) (cols f) (cols g) (r_cols _ _ _ HR) Hm
+                  (proj1 (r_wf1 _ _ _ HR)) (proj1 (r_wf2 _ _ _ HR)) H3) as HF.
+    pose proof (lookup_from_rel (fcol_sim L (phys_len f) (phys_len g)) name (cols f) (cols g) 0 None None HF I) as Hl0.
+    unfold lookup_col, lookup, optrel in *.
+    destruct (lookup_from name (cols f) 0 None) as [[k1 c1]|], (lookup_from name (cols g) 0 None) as [[k2 c2]|];
+      cbn [option_map snd]; exact Hl0. }
+  assert (HS : Sub f g L f g) by (split; [reflexivity|split; [reflexivity|split; [exact He|apply paired_combine; exact Hl]]]).
+  pose proof (frame_filter_sim mt f g L (one2one_combine _ _ Hn1 Hn2) Hcols c f g HS) as H.
+  unfold sub_out, filter_sim_out, same_result in *.
+  destruct (frame_filter mt f c) as [a| |] eqn:Ea, (frame_filter mt g c) as [b| |] eqn:Eb; try contradiction; [|split; exact I].
+  pose proof H as [Ca [Cb [Eab Pab]]].
+  pose proof (Sub_Rel f g L a b HR H) as HRab.
+  split.
+  - split; [exact Eab|]. destruct (ferr a); [exact I|]. split; [exact Ca|]. split; [exact Cb|].
+    split; [apply (paired_length L _ _ Pab)|]. split; [apply paired_incl; exact Pab|].
+    split; [apply (frame_filter_nodup mt c f a Hn1 Ea)|apply (frame_filter_nodup mt c g b Hn2 Eb)].
+  - split; [exact Eab|]. apply (abs_of_rel L a b HRab); [apply (paired_length L _ _ Pab)|apply paired_incl; exact Pab].
+Qed.
+
+Theorem filtered_apply_congr_full mt ut f g t c is :
+  abs f = Ok t -> abs g = Ok t -> ferr f = ferr g -> wf_frame f = true -> wf_frame g = true ->
+  NoDup (ix f) -> NoDup (ix g) -> enum_metas f = enum_metas g -> enum_nodup_b f = true ->
+  forallb (fun i => afn_wf (ifn i)) is = true ->
+  (forall ff, frame_filter mt f c = Ok ff -> upper_prog_okb ut (with_ix f (ix ff)) is = true) ->
+  (forall gg, frame_filter mt g c = Ok gg -> upper_prog_okb ut (with_ix g (ix gg)) is = true) ->
+  same_visible (filtered_apply mt ut f c is) (filtered_apply mt ut g c is).
+Proof.
+  intros Hf Hg He Hw1 Hw2 Hn1 Hn2 Hm Hnd Hfn Hu1 Hu2.
+  destruct (filter_congr_full mt f g t c Hf Hg He Hw1 Hw2 Hn1 Hn2 Hm Hnd) as [Hflt _].
+  apply (filtered_apply_sim mt ut f g t c is Hf Hg He Hw1 Hw2 Hn1 Hn2 Hflt Hfn Hu1 Hu2).
+Qed.
+
+(* ================================================================== the summary statement *)
 
 (* Every deterministic operation of Model/Ops.v, Model/Filter.v and Model/Eval.v maps two well-formed frames with
    the same logical table and Err state (duplicate-free indexes) to the same outcome: both panic, or both return
-   frames with the same Err state and - without Err - the same logical table.  For Apply and WithRowNums the
-   tables agree even when Err is set.  The premises beyond "same table" are exactly the places where the
-   implementation consults data the table does not show:
+   frames with the same Err state and the same logical table (FilteredApply: the same table when Err is not set).
+   The premises beyond "same table" are exactly the places where the implementation consults data the table does
+   not show:
      - ToUpper on an enum column upper-cases the whole value list (upper_prog_okb: the oracle table answers there);
      - Filter compares enum cells by rank and rejects unknown constants for strict enums (enum_metas: same value
-       lists and strictness), and its row-wise characterisation needs at least one row and the C02 premises;
-     - Eval: the premises of the C07 theorem, and no open sub-tree. *)
+       lists and strictness; enum_nodup_b: pairwise different values, so that a string has one rank);
+     - Eval: nothing beyond typed context functions (ctx_fn_ok) - not even the premises of the C07 theorem.
+   Recorded function / matcher tables need not answer: where one lacks an entry both runs panic. *)
 Definition congruence_statement2 : Prop :=
   forall f g t,
     wf_frame f = true -> wf_frame g = true -> NoDup (ix f) -> NoDup (ix g) ->
@@ -1400,26 +2579,22 @@ Definition congruence_statement2 : Prop :=
                    upper_prog_okb ut f is = true -> upper_prog_okb ut g is = true ->
                    same_result (apply ut f is) (apply ut g is))
     /\ (forall name, same_result (with_row_nums f name) (with_row_nums g name))
-    /\ (forall mt c, c02_premises_b mt f c = true -> c02_premises_b mt g c = true -> trows t <> [] ->
-                     enum_metas f = enum_metas g ->
-                     same_visible (frame_filter mt f c) (frame_filter mt g c))
+    /\ (forall mt c, enum_metas f = enum_metas g -> enum_nodup_b f = true ->
+                     same_result (frame_filter mt f c) (frame_filter mt g c))
     /\ (forall mt ut c is,
-          c02_premises_b mt f c = true -> c02_premises_b mt g c = true -> trows t <> [] ->
-          enum_metas f = enum_metas g -> forallb (fun i => afn_wf (ifn i)) is = true ->
+          enum_metas f = enum_metas g -> enum_nodup_b f = true -> forallb (fun i => afn_wf (ifn i)) is = true ->
           (forall ff, frame_filter mt f c = Ok ff -> upper_prog_okb ut (with_ix f (ix ff)) is = true) ->
           (forall gg, frame_filter mt g c = Ok gg -> upper_prog_okb ut (with_ix g (ix gg)) is = true) ->
           same_visible (filtered_apply mt ut f c is) (filtered_apply mt ut g c is))
-    /\ (forall ut cx dst e,
-          EvalFull.ctx_ok cx = true -> EvalFull.names_ok f = true -> EvalFull.expr_ok f e = true ->
-          (N.of_nat (length (cols f) + EvalFull.temps_needed e) <= 10000)%N -> EvalFull.has_open cx t e = false ->
-          same_visible (Eval.eval ut cx f dst e) (Eval.eval ut cx g dst e)).
+    /\ (forall ut cx dst e, ctx_fn_ok cx = true ->
+          same_result (Eval.eval ut cx f dst e) (Eval.eval ut cx g dst e)).
 
 Theorem congruence2 : congruence_statement2.
 Proof.
   intros f g t Hw1 Hw2 Hn1 Hn2 Hf Hg He. repeat split.
   - intros ut is Hfn Hu1 Hu2. apply (apply_congr ut f g t is); assumption.
   - intro name. apply (with_row_nums_congr f g t name); assumption.
-  - intros mt c P1 P2 Hne Hm. apply (filter_congr mt f g t c); assumption.
-  - intros mt ut c is P1 P2 Hne Hm Hfn Hu1 Hu2. apply (filtered_apply_congr mt ut f g t c is); assumption.
-  - intros ut cx dst e Hcx Hnm Hok Hb Hop. apply (eval_congr ut cx f g t dst e); assumption.
+  - intros mt c Hm Hnd. apply (filter_congr_full mt f g t c); assumption.
+  - intros mt ut c is Hm Hnd Hfn Hu1 Hu2. apply (filtered_apply_congr_full mt ut f g t c is); assumption.
+  - intros ut cx dst e Hcx. apply (eval_congr_full ut cx Hcx f g t dst e); assumption.
 Qed.
